@@ -30,34 +30,74 @@
     an atom whose arguments are all bound is taken first, else the left-most), while [sccAtoms] and
     [version] stay in source order.  The order is the same for all versions of a clause (the static
     SIPS ignores the atom names), so the scans of the versions agree, but version [i] may have its
-    @delta at SCC scan position [perm(i)] for a permutation [perm] of the positions.  The checker
+    @delta at SCC atom position [perm(i)] for a permutation [perm] of the positions (the positions of
+    [scc_atoms]: the SCC scans in scan order, then the SCC atoms without a scan in the order of their
+    emptiness tests; with a [.plan] for one version the scans of the versions differ and the clause
+    is rejected, [RScanMismatch]).  The checker
     therefore reads [perm] off the versions ([clause_perm]), demands that it is a permutation, and
     demands the negated deltas of version [i] exactly for the positions [perm(j)], [j > i].  The facts
     handed to the abstract scheme are listed in [perm] order ([clause_facts]), which is the source
-    order of the SCC atoms; for [perm] = identity this is the order of the scans
-    ([clause_facts_identity]).
+    order of the SCC atoms; for [perm] = identity and no atoms without a scan this is the order of
+    the scans ([clause_facts_identity]).
 
     Besides the frame and the delta scheme the checker demands that the versions of a clause agree
-    on everything else ([uniform]: scans and negations of lower strata, equalities, number of other
-    filters, insertion), as [translateRecursiveClause] translates the same clause each time; this
+    on everything else ([uniform]: scans, negations and emptiness tests of lower strata, equalities,
+    number of other filters, insertion), as [translateRecursiveClause] translates the same clause each time; this
     is what lets one rule of the abstract scheme ([fire_clause]) stand for all versions
     ([version_emits_iff], [emitted_body_is_New], [emitted_stratum_sound]).
 
     Trusted, outside this file: the translator from the RAM text to the skeleton.  It takes the SCC
     to be the relations that have table-update statements, sets the three update flags without
     recording the order of the statements, and counts the filters it does not classify
-    ([v_others]; among them the emptiness tests [IF (NOT ISEMPTY(rel))] that [addAtomScan] puts
-    under the scan of [rel], which the scan implies).  The remaining filters of a clause are a
+    ([v_others]; among them the emptiness test [IF (NOT ISEMPTY(rel))] that [addAtomScan] puts
+    directly under the scan of [rel], which the scan implies; every other [IF (NOT ISEMPTY(rel))]
+    is listed in [v_tests]).  The remaining filters of a clause are a
     parameter [others_sat] of the semantics, the same for all versions of the clause.
 
+    Relations of arity 0, atoms without a scan, heads without arguments ([addAtomScan],
+    [addNegatedDeltaAtom], [addNegatedAtom], [createCondition], [createInsertion],
+    UnitTranslator.cpp [generateMergeRelations]):
+    - [addAtomScan] emits no scan for an atom of arity 0 or with only unnamed arguments, only
+      [IF (NOT ISEMPTY(rel))] with [rel] chosen by [getAtomName] as for a scan       -> [v_tests].
+      (ast/transform/PartitionBodyLiterals.cpp moves an atom [Q(_,_)] of a clause with a head of
+      arity > 0 into a clause [+disconnectedN() :- Q(_,_).], so in such a clause only atoms of arity 0
+      are left without a scan; in the +disconnected clause itself [Q] keeps its arity and has no
+      scan.  Both occur in the RAM and both are read.)
+      Semantics: the test holds iff the relation is not empty ([test_sat]); as a member of a body
+      combination the atom stands for SOME tuple of its relation: the facts handed to the abstract
+      scheme take it from a witness function [w] ([afact_at], [clause_facts]), and the soundness
+      statements say "the filters of version [i] hold iff there is [w] with
+      [version_ok R D i (clause_facts c asg w)]".  On clauses without such atoms the facts do not
+      depend on [w] ([version_ok_sound_scans] is the former statement).
+    - [addNegatedDeltaAtom] emits [IF ISEMPTY(@delta_r)] for an atom of arity 0       -> [v_empties].
+      It says "no tuple in @delta_r", which is "the tuple of the atom is not in @delta_r" only when
+      [r] holds at most one tuple.  [stratum_check] therefore demands that [r] is among the
+      relations whose copy statements have the form for arity 0 ([st_nullary], [nullary_check]),
+      and the theorems assume that these relations hold at most the empty tuple (typed RAM:
+      [INSERT () INTO r]).  For an atom with only unnamed arguments over a relation of arity > 0
+      the emitted negated delta is [IF (NOT (_,..,_) IN @delta_r)]; the translator does not produce a
+      skeleton then (fails closed).  Such an atom is accepted where no negated delta is due for
+      it: as the first SCC atom in source order, in particular as the only one.
+    - [createCondition]: a clause with a head [H] of arity 0 starts with [IF ISEMPTY(H)], and
+      [addBodyLiteralConstraints] emits no [NOT () IN H]: [ISEMPTY(H)] is the head guard
+      ([has_guard], [is_guard0]), also listed in [v_empties].  A negated atom of arity 0 of a lower
+      stratum is [IF ISEMPTY(L)] as well ([lower_empties], part of [fire_clause]).
+    - [createInsertion] puts [IF ISEMPTY(@new_H)] in front of [INSERT () INTO @new_H], and
+      [addAtomScan] puts [IF (NOT ISEMPTY(@new_H)) BREAK] under every scan ([v_breaks]).  Both only
+      save work: when @new_H is not empty it already holds the empty tuple, the only tuple the
+      QUERY can insert.  The checker demands that they test @new of the head relation and that the
+      head has no arguments ([empty_ok], [break_ok]); the semantics of a QUERY ([version_emits]) has the
+      test as a filter on @new, the loop body is the union of the QUERYs taken on empty @new
+      relations ([body_emitted]), and [self_test_redundant] proves that this leaves the same
+      tuples in @new as the QUERY run on the @new relations it finds.  The BREAK is not modelled.
+    - Frame: the copy statements of a relation of arity 0 are [IF (NOT ISEMPTY(src)) INSERT () INTO dst]
+      ([copied]); the translator lists these relations in [st_nullary].
+
     Not covered; the checker rejects (never accepts) such strata:
-    - nullary relations: no scan, [IF ISEMPTY(@delta_R)] instead of a negated delta, [IF ISEMPTY(H)] at
-      the entry instead of the head guard ([addNegatedDeltaAtom], [addNegatedAtom], [createCondition],
-      [addAtomScan]); atoms with only unnamed arguments have no scan either.  Result: fewer SCC scans
-      than versions, [RVersionsCount]; an empty argument list is [RUnsupported UNullary].
     - subsumptive clauses ([translateSubsumptiveRecursiveClauses], other exit test and table update),
       eqrel relations ([MergeExtend] instead of the copy loop), lattice relations
       ([generateStratumLubSequence]): the frame has other statements, [RFrame _].
+    - [ISEMPTY(@delta_r)] for a relation without the arity-0 copy statements: [RUnsupported UWide].
     Equalities: the translator lists every [IF (X = Y)]; for float attributes [addEqualityCheck] emits
     FEQ, which is not identity of bit patterns; the soundness theorems take [sat_eqs] (identity of the
     values) as a hypothesis.
@@ -79,25 +119,34 @@ Inductive elem :=
 
 Record scan := mkScan { s_tup : N; s_rel : N; s_kind : kind }.
 Record neg := mkNeg { n_rel : N; n_kind : kind; n_args : list elem }.
-Record version := mkVersion {
+(** an emptiness test on a relation: [ISEMPTY(rel)] or its negation, depending on the list it is in *)
+Record test := mkTest { e_rel : N; e_kind : kind }.
+Record version := mkVersionX {
   v_scans : list scan;
   v_eqs : list (elem * elem);
   v_negs : list neg;
   v_others : N;
-  v_ins_rel : N; v_ins_kind : kind; v_ins_args : list elem }.
+  v_ins_rel : N; v_ins_kind : kind; v_ins_args : list elem;
+  v_tests : list test;       (* [IF (NOT ISEMPTY(rel))] of the atoms that have no scan *)
+  v_empties : list test;     (* [IF ISEMPTY(rel)] *)
+  v_breaks : list test }.    (* [IF (NOT ISEMPTY(rel)) BREAK] *)
+(** a version without emptiness tests *)
+Definition mkVersion sc eq ng ot ir ik ia : version := mkVersionX sc eq ng ot ir ik ia [] [] [].
 Record clause := mkClause { c_id : N; c_versions : list version }.
 Record update := mkUpdate { u_rel : N; u_merge : bool; u_swap : bool; u_clear : bool }.
-Record stratum := mkStratum {
+Record stratum := mkStratumX {
   st_scc : list N;
   st_preamble : list N;
   st_exit : list N;
   st_limits : list (N * N);
   st_update : list update;
-  st_clauses : list clause }.
+  st_clauses : list clause;
+  st_nullary : list N }.     (* the relations whose copy statements have the form for arity 0 *)
+Definition mkStratum scc pre ex lim upd cls : stratum := mkStratumX scc pre ex lim upd cls [].
 
 (** ** Results of the checker *)
-Inductive unsup := UScanKind | UNullary | UNegKind | USccNegation.
-Inductive frame_item := FPreamble | FExit | FUpdateSet | FUpdateDup | FUpdateFlags | FLimits.
+Inductive unsup := UScanKind | UNullary | UNegKind | USccNegation | UTestKind | UEmptyKind | UBreak | UWide.
+Inductive frame_item := FPreamble | FExit | FUpdateSet | FUpdateDup | FUpdateFlags | FLimits | FNullary.
 Inductive reason :=
 | RVersionsCount (c : N)
 | RScanMismatch (c : N) (v : nat)
@@ -171,29 +220,64 @@ Definition args_match eqs t args := args_match_from eqs t 0 args.
 Definition in_scc (scc : list N) (r : N) : bool := memN r scc.
 Definition scc_scans (scc : list N) (v : version) : list scan :=
   filter (fun s => in_scc scc (s_rel s)) (v_scans v).
+Definition scc_tests (scc : list N) (v : version) : list test :=
+  filter (fun e => in_scc scc (e_rel e)) (v_tests v).
 Definition delta_negs (v : version) : list neg :=
   filter (fun n => kind_eqb (n_kind n) KDelta) (v_negs v).
+Definition delta_empties (v : version) : list test :=
+  filter (fun e => kind_eqb (e_kind e) KDelta) (v_empties v).
+
+(** The SCC atoms of a version: those with a scan (the tuple id is kept), then those without
+    ([a_tup = None]).  The order is internal; the order of the facts handed to the abstract scheme is
+    the order of the versions ([clause_perm]). *)
+Record atom := mkAtom { a_tup : option N; a_rel : N; a_kind : kind }.
+Definition atom_of_scan (s : scan) : atom := mkAtom (Some (s_tup s)) (s_rel s) (s_kind s).
+Definition atom_of_test (e : test) : atom := mkAtom None (e_rel e) (e_kind e).
+Definition scc_atoms (scc : list N) (v : version) : list atom :=
+  map atom_of_scan (scc_scans scc v) ++ map atom_of_test (scc_tests scc v).
 
 Definition scan_kind_ok (scc : list N) (s : scan) : bool :=
   match s_kind s with KMain => true | KDelta => in_scc scc (s_rel s) | KNew => false end.
+Definition test_kind_ok (scc : list N) (e : test) : bool :=
+  match e_kind e with KMain => true | KDelta => in_scc scc (e_rel e) | KNew => false end.
 (** the filter [NOT (head args) IN H] of [addNegatedAtom] *)
 Definition is_guard (v : version) (n : neg) : bool :=
   kind_eqb (n_kind n) KMain && N.eqb (n_rel n) (v_ins_rel v) && elems_eqb (n_args n) (v_ins_args v).
+(** [r] is the head relation and the head has no arguments *)
+Definition nullary_head (v : version) (r : N) : bool := N.eqb r (v_ins_rel v) && is_nil (v_ins_args v).
+(** the filter [ISEMPTY(H)] of [createCondition] *)
+Definition is_guard0 (v : version) (e : test) : bool :=
+  kind_eqb (e_kind e) KMain && N.eqb (e_rel e) (v_ins_rel v).
+Definition has_guard (v : version) : bool :=
+  if is_nil (v_ins_args v) then existsb (is_guard0 v) (v_empties v) else existsb (is_guard v) (v_negs v).
 (** a negation of a main SCC relation can only be the head guard (stratification) *)
 Definition scc_neg_ok (scc : list N) (v : version) (n : neg) : bool :=
   if kind_eqb (n_kind n) KMain && in_scc scc (n_rel n) then is_guard v n else true.
 Definition delta_neg_in_scc (scc : list N) (n : neg) : bool :=
   if kind_eqb (n_kind n) KDelta then in_scc scc (n_rel n) else true.
+(** [ISEMPTY(rel)]: on a main SCC relation only the guard of a head without arguments; on @delta only
+    for SCC relations (negated delta); on @new only the test in front of [INSERT () INTO @new_H] *)
+Definition empty_ok (scc : list N) (v : version) (e : test) : bool :=
+  match e_kind e with
+  | KMain => if in_scc scc (e_rel e) then nullary_head v (e_rel e) else true
+  | KDelta => in_scc scc (e_rel e)
+  | KNew => nullary_head v (e_rel e)
+  end.
+(** [IF (NOT ISEMPTY(@new_H)) BREAK] for a head [H] without arguments *)
+Definition break_ok (v : version) (e : test) : bool :=
+  kind_eqb (e_kind e) KNew && nullary_head v (e_rel e).
 
 Definition version_local (scc : list N) (cid : N) (i : nat) (v : version) : result :=
   guard (forallb (scan_kind_ok scc) (v_scans v)) (RUnsupported UScanKind cid i) ;;
   guard (kind_eqb (v_ins_kind v) KNew && in_scc scc (v_ins_rel v)) (RInsertTarget cid i) ;;
-  guard (negb (is_nil (v_ins_args v))) (RUnsupported UNullary cid i) ;;
+  guard (forallb (test_kind_ok scc) (v_tests v)) (RUnsupported UTestKind cid i) ;;
   guard (forallb (fun n => negb (is_nil (n_args n))) (v_negs v)) (RUnsupported UNullary cid i) ;;
   guard (forallb (fun n => negb (kind_eqb (n_kind n) KNew)) (v_negs v)) (RUnsupported UNegKind cid i) ;;
   guard (forallb (delta_neg_in_scc scc) (v_negs v)) (RExtraNegDelta cid i) ;;
   guard (forallb (scc_neg_ok scc v) (v_negs v)) (RUnsupported USccNegation cid i) ;;
-  guard (existsb (is_guard v) (v_negs v)) (RGuard cid i).
+  guard (has_guard v) (RGuard cid i) ;;
+  guard (forallb (empty_ok scc v) (v_empties v)) (RUnsupported UEmptyKind cid i) ;;
+  guard (forallb (break_ok v) (v_breaks v)) (RUnsupported UBreak cid i).
 
 (** ** The checks on a clause *)
 Fixpoint scans_same (l1 l2 : list scan) : bool :=
@@ -202,10 +286,16 @@ Fixpoint scans_same (l1 l2 : list scan) : bool :=
   | a :: l1', b :: l2' => N.eqb (s_tup a) (s_tup b) && N.eqb (s_rel a) (s_rel b) && scans_same l1' l2'
   | _, _ => false
   end.
+Fixpoint tests_same (l1 l2 : list test) : bool :=
+  match l1, l2 with
+  | [], [] => true
+  | a :: l1', b :: l2' => N.eqb (e_rel a) (e_rel b) && tests_same l1' l2'
+  | _, _ => false
+  end.
 
 (** Everything except the placement of the delta and the negated deltas is the same in all versions
     of a clause: the scans of lower strata, the equalities, the negations of lower strata, the
-    number of other filters, the insertion. *)
+    number of other filters, the insertion, the emptiness tests on relations of lower strata. *)
 Fixpoint list_eqb {A : Type} (eqb : A -> A -> bool) (l1 l2 : list A) : bool :=
   match l1, l2 with
   | [], [] => true
@@ -216,28 +306,36 @@ Definition scan_eqb (a b : scan) : bool :=
   N.eqb (s_tup a) (s_tup b) && N.eqb (s_rel a) (s_rel b) && kind_eqb (s_kind a) (s_kind b).
 Definition neg_eqb (a b : neg) : bool :=
   N.eqb (n_rel a) (n_rel b) && kind_eqb (n_kind a) (n_kind b) && elems_eqb (n_args a) (n_args b).
+Definition test_eqb (a b : test) : bool :=
+  N.eqb (e_rel a) (e_rel b) && kind_eqb (e_kind a) (e_kind b).
 Definition eq_pair_eqb (p q : elem * elem) : bool :=
   elem_eqb (fst p) (fst q) && elem_eqb (snd p) (snd q).
 Definition lower_scans (scc : list N) (v : version) : list scan :=
   filter (fun s => negb (in_scc scc (s_rel s))) (v_scans v).
 Definition lower_negs (scc : list N) (v : version) : list neg :=
   filter (fun n => negb (in_scc scc (n_rel n))) (v_negs v).
+Definition lower_tests (scc : list N) (v : version) : list test :=
+  filter (fun e => negb (in_scc scc (e_rel e))) (v_tests v).
+Definition lower_empties (scc : list N) (v : version) : list test :=
+  filter (fun e => negb (in_scc scc (e_rel e))) (v_empties v).
 Definition uniform (scc : list N) (v0 v : version) : bool :=
   list_eqb scan_eqb (lower_scans scc v) (lower_scans scc v0) &&
   list_eqb eq_pair_eqb (v_eqs v) (v_eqs v0) &&
   list_eqb neg_eqb (lower_negs scc v) (lower_negs scc v0) &&
   N.eqb (v_others v) (v_others v0) &&
-  N.eqb (v_ins_rel v) (v_ins_rel v0) && elems_eqb (v_ins_args v) (v_ins_args v0).
+  N.eqb (v_ins_rel v) (v_ins_rel v0) && elems_eqb (v_ins_args v) (v_ins_args v0) &&
+  list_eqb test_eqb (lower_tests scc v) (lower_tests scc v0) &&
+  list_eqb test_eqb (lower_empties scc v) (lower_empties scc v0).
 
-Definition is_delta (s : scan) : bool := kind_eqb (s_kind s) KDelta.
-Fixpoint dpos_from (n : nat) (l : list scan) : list nat :=
+Definition is_delta (a : atom) : bool := kind_eqb (a_kind a) KDelta.
+Fixpoint dpos_from (n : nat) (l : list atom) : list nat :=
   match l with
   | [] => []
   | s :: l' => if is_delta s then n :: dpos_from (S n) l' else dpos_from (S n) l'
   end.
-(** the SCC scan position that reads @delta, if there is exactly one *)
+(** the SCC atom position that reads @delta, if there is exactly one *)
 Definition delta_pos (scc : list N) (v : version) : option nat :=
-  match dpos_from 0 (scc_scans scc v) with [p] => Some p | _ => None end.
+  match dpos_from 0 (scc_atoms scc v) with [p] => Some p | _ => None end.
 Definition is_some {A : Type} (o : option A) : bool := match o with Some _ => true | None => false end.
 Definition clause_perm (scc : list N) (c : clause) : list nat :=
   map (fun v => match delta_pos scc v with Some p => p | None => 0 end) (c_versions c).
@@ -249,19 +347,31 @@ Fixpoint nodup_from (cid : N) (i : nat) (seen : list nat) (l : list nat) : resul
                else nodup_from cid (S i) (p :: seen) l'
   end.
 
-(** [n] is [NOT (t_p modulo eqs) IN @delta_{R_p}] for the SCC scan at position [p] *)
+(** [n] is [NOT (t_p modulo eqs) IN @delta_{R_p}] for the scanned SCC atom at position [p] *)
 Definition neg_matches (scc : list N) (v : version) (p : nat) (n : neg) : bool :=
-  match nth_error (scc_scans scc v) p with
-  | Some s => N.eqb (n_rel n) (s_rel s) && args_match (v_eqs v) (s_tup s) (n_args n)
+  match nth_error (scc_atoms scc v) p with
+  | Some a => match a_tup a with
+              | Some t => N.eqb (n_rel n) (a_rel a) && args_match (v_eqs v) t (n_args n)
+              | None => false
+              end
+  | None => false
+  end.
+(** [e] is [ISEMPTY(@delta_{R_p})] for the SCC atom without a scan at position [p] *)
+Definition empt_matches (scc : list N) (v : version) (p : nat) (e : test) : bool :=
+  match nth_error (scc_atoms scc v) p with
+  | Some a => match a_tup a with Some _ => false | None => N.eqb (e_rel e) (a_rel a) end
   | None => false
   end.
 (** [later]: the positions [perm(j)], [j > i] *)
 Definition negdelta_check (scc : list N) (cid : N) (i : nat) (v : version) (later : list nat) : result :=
-  match find (fun p => negb (existsb (neg_matches scc v p) (delta_negs v))) later with
+  match find (fun p => negb (existsb (neg_matches scc v p) (delta_negs v) ||
+                             existsb (empt_matches scc v p) (delta_empties v))) later with
   | Some p => Reject (RMissingNegDelta cid i p)
   | None => OkResult
   end ;;
   guard (forallb (fun n => existsb (fun p => neg_matches scc v p n) later) (delta_negs v))
+        (RExtraNegDelta cid i) ;;
+  guard (forallb (fun e => existsb (fun p => empt_matches scc v p e) later) (delta_empties v))
         (RExtraNegDelta cid i).
 
 Definition clause_check (scc : list N) (c : clause) : result :=
@@ -270,14 +380,21 @@ Definition clause_check (scc : list N) (c : clause) : result :=
   | v0 :: _ =>
       let vs := c_versions c in
       let perm := clause_perm scc c in
-      check_all (fun i v => guard (scans_same (v_scans v) (v_scans v0)) (RScanMismatch (c_id c) i)) vs ;;
+      check_all (fun i v => guard (scans_same (v_scans v) (v_scans v0) && tests_same (v_tests v) (v_tests v0))
+                                  (RScanMismatch (c_id c) i)) vs ;;
       check_all (fun i v => guard (uniform scc v0 v) (RVersionMismatch (c_id c) i)) vs ;;
       check_all (version_local scc (c_id c)) vs ;;
-      guard (Nat.eqb (length vs) (length (scc_scans scc v0))) (RVersionsCount (c_id c)) ;;
+      guard (Nat.eqb (length vs) (length (scc_atoms scc v0))) (RVersionsCount (c_id c)) ;;
       check_all (fun i v => guard (is_some (delta_pos scc v)) (RDeltaPosition (c_id c) i)) vs ;;
       nodup_from (c_id c) 0 [] perm ;;
       check_all (fun i v => negdelta_check scc (c_id c) i v (skipn (S i) perm)) vs
   end.
+
+(** [ISEMPTY(@delta_r)] stands for a negated delta only when [r] holds at most the empty tuple:
+    [r] must be among the relations whose copy statements have the form for arity 0 *)
+Definition nullary_check (nul : list N) (c : clause) : result :=
+  check_all (fun i v => guard (forallb (fun e => memN (e_rel e) nul) (delta_empties v))
+                              (RUnsupported UWide (c_id c) i)) (c_versions c).
 
 (** ** The frame *)
 Definition first_missing (a b : list N) : option N := find (fun r => negb (memN r b)) a.
@@ -302,10 +419,13 @@ Definition frame_check (s : stratum) : result :=
   match find (fun u => negb (flags_ok u)) (st_update s) with
   | Some u => Reject (RFrame FUpdateFlags (u_rel u)) | None => OkResult end ;;
   match find (fun p => negb (in_scc (st_scc s) (fst p))) (st_limits s) with
-  | Some p => Reject (RFrame FLimits (fst p)) | None => OkResult end.
+  | Some p => Reject (RFrame FLimits (fst p)) | None => OkResult end ;;
+  match first_missing (st_nullary s) (st_scc s) with
+  | Some r => Reject (RFrame FNullary r) | None => OkResult end.
 
 Definition stratum_check (s : stratum) : result :=
-  frame_check s ;; check_all (fun _ c => clause_check (st_scc s) c) (st_clauses s).
+  frame_check s ;; check_all (fun _ c => clause_check (st_scc s) c) (st_clauses s) ;;
+  check_all (fun _ c => nullary_check (st_nullary s) c) (st_clauses s).
 
 Definition version_okb (scc : list N) (cid : N) (i : nat) (v : version) : bool :=
   is_ok (version_local scc cid i v).
@@ -423,18 +543,50 @@ Proof.
         intros ->. rewrite Nat.sub_diag in H2. simpl in H2. inversion H2; subst. congruence.
 Qed.
 
+Lemma tests_same_sig l1 : forall l2, tests_same l1 l2 = true -> map e_rel l1 = map e_rel l2.
+Proof.
+  induction l1 as [|a l1 IH]; intros [|b l2] H; simpl in H; try discriminate; auto.
+  apply andb_true_iff in H as [H1 H2]. apply N.eqb_eq in H1. simpl. rewrite H1. f_equal. auto.
+Qed.
+
+Lemma sig_filter_tests (f : N -> bool) l1 : forall l2,
+  map e_rel l1 = map e_rel l2 ->
+  map e_rel (filter (fun e => f (e_rel e)) l1) = map e_rel (filter (fun e => f (e_rel e)) l2).
+Proof.
+  induction l1 as [|a l1 IH]; intros [|b l2] H; simpl in H; try discriminate; auto.
+  inversion H as [[H1 H2]]. simpl. rewrite H1.
+  destruct (f (e_rel b)); simpl; [rewrite H1; f_equal|]; auto.
+Qed.
+
+(** an SCC atom is a scan or a test of the version *)
+Lemma scc_atoms_In scc v a :
+  In a (scc_atoms scc v) ->
+  (exists s, In s (scc_scans scc v) /\ a = atom_of_scan s) \/
+  (exists e, In e (scc_tests scc v) /\ a = atom_of_test e).
+Proof.
+  unfold scc_atoms. intros H. apply in_app_or in H as [H | H]; apply in_map_iff in H as (x & E & Hx);
+    [left | right]; exists x; auto.
+Qed.
+
+Lemma scc_atoms_rel scc v a : In a (scc_atoms scc v) -> In (a_rel a) scc.
+Proof.
+  intros H. destruct (scc_atoms_In scc v a H) as [(s & Hs & ->) | (e & He & ->)]; simpl;
+    [apply filter_In in Hs as [_ Hs] | apply filter_In in He as [_ Hs]]; apply existsb_exists in Hs;
+    destruct Hs as (x & Hx & E); apply N.eqb_eq in E; subst; exact Hx.
+Qed.
+
 Lemma delta_pos_spec scc v p :
   delta_pos scc v = Some p ->
-  (exists s, nth_error (scc_scans scc v) p = Some s /\ is_delta s = true) /\
-  (forall q s, nth_error (scc_scans scc v) q = Some s -> is_delta s = true -> q = p).
+  (exists s, nth_error (scc_atoms scc v) p = Some s /\ is_delta s = true) /\
+  (forall q s, nth_error (scc_atoms scc v) q = Some s -> is_delta s = true -> q = p).
 Proof.
   unfold delta_pos. intros H.
-  destruct (dpos_from 0 (scc_scans scc v)) as [|p0 [|p1 l]] eqn:E; try discriminate.
+  destruct (dpos_from 0 (scc_atoms scc v)) as [|p0 [|p1 l]] eqn:E; try discriminate.
   inversion H; subst p0. split.
-  - assert (Hin : In p (dpos_from 0 (scc_scans scc v))) by (rewrite E; simpl; auto).
+  - assert (Hin : In p (dpos_from 0 (scc_atoms scc v))) by (rewrite E; simpl; auto).
     apply dpos_from_spec in Hin as (s & _ & Hs & Hd). rewrite Nat.sub_0_r in Hs. eauto.
   - intros q s Hq Hd.
-    assert (Hin : In q (dpos_from 0 (scc_scans scc v))).
+    assert (Hin : In q (dpos_from 0 (scc_atoms scc v))).
     { apply dpos_from_spec. exists s. rewrite Nat.sub_0_r. repeat split; auto. lia. }
     rewrite E in Hin. destruct Hin as [<- | []]. reflexivity.
 Qed.
@@ -538,6 +690,16 @@ Section Semantics.
   (** [IF (NOT (args) IN rel)] *)
   Definition neg_sat (asg : N -> tuple) (kenv : N -> val) (n : neg) : Prop :=
     ~ sel (n_kind n) (n_rel n) (map (ev asg kenv) (n_args n)).
+  (** [IF (NOT ISEMPTY(rel))] *)
+  Definition test_sat (e : test) : Prop := exists t, sel (e_kind e) (e_rel e) t.
+  (** [IF ISEMPTY(rel)] *)
+  Definition empt_sat (e : test) : Prop := forall t, ~ sel (e_kind e) (e_rel e) t.
+  (** an SCC atom: the scanned tuple is in the relation; without a scan: the relation is not empty *)
+  Definition atom_sat (asg : N -> tuple) (a : atom) : Prop :=
+    match a_tup a with
+    | Some t => sel (a_kind a) (a_rel a) (asg t)
+    | None => exists t, sel (a_kind a) (a_rel a) t
+    end.
   (** the facts of the SCC held by a relation family *)
   Definition fset_of (X : rel_interp) : fset fact := fun f => In (fst f) scc /\ X (fst f) (snd f).
 
@@ -549,104 +711,183 @@ Section Semantics.
   (** the fact bound at position [p] of a list of scans *)
   Definition fact_at (asg : N -> tuple) (l : list scan) (p : nat) : fact :=
     match nth_error l p with Some s => (s_rel s, asg (s_tup s)) | None => (0%N, []) end.
+  (** the fact at position [p] of a list of SCC atoms; for an atom without a scan the tuple is [w p]
+      (some tuple of the relation: the atom only asks for one to exist) *)
+  Definition afact_at (asg : N -> tuple) (w : nat -> tuple) (l : list atom) (p : nat) : fact :=
+    match nth_error l p with
+    | Some a => (a_rel a, match a_tup a with Some t => asg t | None => w p end)
+    | None => (0%N, [])
+    end.
   (** the facts of the SCC atoms of a clause, in source order (= version order) *)
-  Definition clause_facts (c : clause) (asg : N -> tuple) : list fact :=
+  Definition clause_facts (c : clause) (asg : N -> tuple) (w : nat -> tuple) : list fact :=
     match c_versions c with
     | [] => []
-    | v0 :: _ => map (fact_at asg (scc_scans scc v0)) (clause_perm scc c)
+    | v0 :: _ => map (afact_at asg w (scc_atoms scc v0)) (clause_perm scc c)
     end.
 
-  Lemma fact_at_sig asg l1 l2 p :
-    map (fun s => (s_tup s, s_rel s)) l1 = map (fun s => (s_tup s, s_rel s)) l2 ->
-    fact_at asg l1 p = fact_at asg l2 p.
+  Lemma atoms_sat_iff asg v :
+    Forall (atom_sat asg) (scc_atoms scc v) <->
+    Forall (scan_sat asg) (scc_scans scc v) /\ Forall test_sat (scc_tests scc v).
+  Proof. unfold scc_atoms. rewrite Forall_app, !Forall_map. reflexivity. Qed.
+
+  Lemma afact_at_sig asg w l1 l2 p :
+    map (fun a => (a_tup a, a_rel a)) l1 = map (fun a => (a_tup a, a_rel a)) l2 ->
+    afact_at asg w l1 p = afact_at asg w l2 p.
   Proof.
-    intros H. unfold fact_at.
-    assert (E : nth_error (map (fun s => (s_tup s, s_rel s)) l1) p =
-                nth_error (map (fun s => (s_tup s, s_rel s)) l2) p) by (rewrite H; reflexivity).
+    intros H. unfold afact_at.
+    assert (E : nth_error (map (fun a => (a_tup a, a_rel a)) l1) p =
+                nth_error (map (fun a => (a_tup a, a_rel a)) l2) p) by (rewrite H; reflexivity).
     rewrite !nth_error_map in E.
     destruct (nth_error l1 p) as [a|], (nth_error l2 p) as [b|]; simpl in E; try discriminate; auto.
     inversion E as [[E1 E2]]. rewrite E1, E2. reflexivity.
   Qed.
 
+  Lemma afact_at_scans asg w l p : afact_at asg w (map atom_of_scan l) p = fact_at asg l p.
+  Proof. unfold afact_at, fact_at. rewrite nth_error_map. destruct (nth_error l p); reflexivity. Qed.
+
   Lemma neg_matches_sound arity asg kenv v p n :
     typed_version arity asg v -> sat_eqs asg kenv (v_eqs v) ->
     In n (delta_negs v) -> neg_matches scc v p n = true ->
-    exists s, nth_error (scc_scans scc v) p = Some s /\
-              (neg_sat asg kenv n <-> ~ fset_of D (fact_at asg (scc_scans scc v) p)).
+    forall w, neg_sat asg kenv n <-> ~ fset_of D (afact_at asg w (scc_atoms scc v) p).
   Proof.
-    intros [Hts Htn] Hsat Hin Hm. unfold neg_matches in Hm.
-    destruct (nth_error (scc_scans scc v) p) as [s|] eqn:Es; [| discriminate].
-    exists s. split; auto.
+    intros [Hts Htn] Hsat Hin Hm w. unfold neg_matches in Hm. unfold afact_at.
+    destruct (nth_error (scc_atoms scc v) p) as [a|] eqn:Ea; [| discriminate].
+    destruct (a_tup a) as [t|] eqn:Et; [| discriminate].
     apply andb_true_iff in Hm as [Hr Ha]. apply N.eqb_eq in Hr.
     apply filter_In in Hin as [Hin Hk]. apply kind_eqb_eq in Hk.
-    assert (Hs : In s (scc_scans scc v)) by (eapply nth_error_In; eauto).
-    apply filter_In in Hs as [Hs Hscc]. apply memN_In in Hscc.
-    assert (E : map (ev asg kenv) (n_args n) = asg (s_tup s)).
+    assert (Hal : In a (scc_atoms scc v)) by (eapply nth_error_In; eauto).
+    pose proof (scc_atoms_rel scc v a Hal) as Hscc.
+    destruct (scc_atoms_In scc v a Hal) as [(s & Hs & Es) | (e & _ & Es)];
+      [| rewrite Es in Et; discriminate].
+    apply filter_In in Hs as [Hs _].
+    assert (Est : s_tup s = t) by (rewrite Es in Et; simpl in Et; inversion Et; reflexivity).
+    assert (Esr : s_rel s = a_rel a) by (rewrite Es; reflexivity).
+    assert (E : map (ev asg kenv) (n_args n) = asg t).
     { apply args_match_sound with (eqs := v_eqs v); auto.
-      rewrite (Htn n Hin), (Hts s Hs), Hr. reflexivity. }
-    unfold neg_sat, fset_of, fact_at. rewrite Es, Hk, E, Hr. simpl. tauto.
+      rewrite (Htn n Hin), <- Est, (Hts s Hs), Hr, Esr. reflexivity. }
+    unfold neg_sat, fset_of. rewrite Hk, E, Hr. simpl. tauto.
+  Qed.
+
+  (** one tuple for every position, chosen by a property that may depend on the position *)
+  Lemma choose_witness (A : Type) (l : list A) : forall (P : nat -> A -> tuple -> Prop),
+    (forall q a, nth_error l q = Some a -> exists t, P q a t) ->
+    exists w : nat -> tuple, forall q a, nth_error l q = Some a -> P q a (w q).
+  Proof.
+    induction l as [|x l IH]; intros P H.
+    - exists (fun _ => []). intros q a Hq. destruct q; discriminate.
+    - destruct (H 0 x eq_refl) as [t0 Ht0].
+      destruct (IH (fun q => P (S q)) (fun q a Hq => H (S q) a Hq)) as [w Hw].
+      exists (fun q => match q with 0 => t0 | S q' => w q' end).
+      intros [|q] a Hq; simpl in Hq; [inversion Hq; subst; exact Ht0 | exact (Hw q a Hq)].
   Qed.
 
   (** The heart: one version against the abstract [version_ok], given what the clause check
-      establishes about the version ([perm]: version number -> SCC scan position of its delta). *)
+      establishes about the version ([perm]: version number -> SCC atom position of its delta).
+      An atom without a scan contributes some tuple of its relation ([w]); its negated delta is
+      [ISEMPTY(@delta_r)], which says the same as "that tuple is not in @delta_r" when [r] holds at most
+      the empty tuple. *)
   Lemma version_core arity asg kenv v perm i pi :
-    let l := scc_scans scc v in
-    (forall s, In s l -> s_kind s = KMain \/ s_kind s = KDelta) ->
+    (forall a, In a (scc_atoms scc v) -> a_kind a = KMain \/ a_kind a = KDelta) ->
     nth_error perm i = Some pi ->
-    (forall q s, nth_error l q = Some s -> (is_delta s = true <-> q = pi)) ->
-    (forall q, q < length l -> In q perm) ->
-    (forall p, In p perm -> p < length l) ->
+    (forall q a, nth_error (scc_atoms scc v) q = Some a -> (is_delta a = true <-> q = pi)) ->
+    (forall q, q < length (scc_atoms scc v) -> In q perm) ->
+    (forall p, In p perm -> p < length (scc_atoms scc v)) ->
     (forall j p, i < j -> nth_error perm j = Some p ->
-                 exists n, In n (delta_negs v) /\ neg_matches scc v p n = true) ->
+                 (exists n, In n (delta_negs v) /\ neg_matches scc v p n = true) \/
+                 (exists e, In e (delta_empties v) /\ empt_matches scc v p e = true)) ->
     (forall n, In n (delta_negs v) ->
                exists j p, i < j /\ nth_error perm j = Some p /\ neg_matches scc v p n = true) ->
+    (forall e, In e (delta_empties v) ->
+               exists j p, i < j /\ nth_error perm j = Some p /\ empt_matches scc v p e = true) ->
     typed_version arity asg v -> sat_eqs asg kenv (v_eqs v) ->
     (forall r t, In r scc -> D r t -> R r t) ->
-    ((Forall (scan_sat asg) l /\ Forall (neg_sat asg kenv) (delta_negs v)) <->
-     version_ok (fset_of R) (fset_of D) i (map (fact_at asg l) perm)).
+    (forall e, In e (delta_empties v) -> forall t, R (e_rel e) t -> t = []) ->
+    ((Forall (atom_sat asg) (scc_atoms scc v) /\ Forall (neg_sat asg kenv) (delta_negs v) /\
+      Forall empt_sat (delta_empties v)) <->
+     exists w, version_ok (fset_of R) (fset_of D) i (map (afact_at asg w (scc_atoms scc v)) perm)).
   Proof.
-    intros l Hkind Hpi Hdelta Hsurj Hrange Hmiss Hextra Hty Hsat HDR.
-    assert (Hscc : forall s, In s l -> In (s_rel s) scc).
-    { intros s Hs. apply filter_In in Hs as [_ Hs]. apply memN_In. exact Hs. }
+    intros Hkind Hpi Hdelta Hsurj Hrange Hmiss Hextra Hextra0 Hty Hsat HDR Hnul.
+    set (l := scc_atoms scc v) in *.
+    assert (Hscc : forall a, In a l -> In (a_rel a) scc) by (intros a Ha; eapply scc_atoms_rel; eauto).
     split.
-    - intros [Hscans Hnegs] j f Hj.
+    - intros (Hatoms & Hnegs & Hempt). rewrite Forall_forall in Hatoms, Hnegs, Hempt.
+      destruct (choose_witness atom l
+                  (fun q a t => a_tup a = None ->
+                     sel (a_kind a) (a_rel a) t /\
+                     (forall j, i < j -> nth_error perm j = Some q -> ~ D (a_rel a) t))) as [w Hw].
+      { intros q a Hq. destruct (a_tup a) as [t|] eqn:Et; [exists []; intros E; discriminate|].
+        assert (Ha : In a l) by (eapply nth_error_In; eauto).
+        pose proof (Hatoms a Ha) as Hs. unfold atom_sat in Hs. rewrite Et in Hs.
+        destruct Hs as [t Ht]. exists t. intros _. split; auto.
+        intros j Hlt Hj. destruct (Hmiss j q Hlt Hj) as [(n & Hn & Hm) | (e & He & Hm)].
+        - unfold neg_matches in Hm. fold l in Hm. rewrite Hq, Et in Hm. discriminate.
+        - unfold empt_matches in Hm. fold l in Hm. rewrite Hq, Et in Hm. apply N.eqb_eq in Hm.
+          pose proof (Hempt e He) as Hes. unfold empt_sat in Hes.
+          apply filter_In in He as [_ Hk]. apply kind_eqb_eq in Hk. rewrite Hk, Hm in Hes. apply Hes. }
+      exists w. intros j f Hj.
       rewrite nth_error_map in Hj. destruct (nth_error perm j) as [p|] eqn:Ep; [| discriminate].
       simpl in Hj. inversion Hj; subst f; clear Hj.
       assert (Hp : p < length l) by (apply Hrange; eapply nth_error_In; eauto).
-      destruct (nth_error l p) as [s|] eqn:Es; [| apply nth_error_None in Es; lia].
-      assert (Hs : In s l) by (eapply nth_error_In; eauto).
-      rewrite Forall_forall in Hscans, Hnegs. pose proof (Hscans s Hs) as Hss.
-      unfold scan_sat in Hss.
-      assert (Ef : fact_at asg l p = (s_rel s, asg (s_tup s))) by (unfold fact_at; rewrite Es; auto).
-      split; [| split].
-      + rewrite Ef. split; simpl; [auto|].
-        destruct (Hkind s Hs) as [Hk | Hk]; rewrite Hk in Hss; simpl in Hss; auto.
-      + intros ->. rewrite Hpi in Ep. inversion Ep; subst p.
-        assert (Hd : is_delta s = true) by (apply (Hdelta pi s Es); reflexivity).
-        unfold is_delta in Hd. apply kind_eqb_eq in Hd. rewrite Hd in Hss. simpl in Hss.
-        rewrite Ef. split; simpl; auto.
-      + intros Hlt. destruct (Hmiss j p Hlt Ep) as (n & Hn & Hm).
-        destruct (neg_matches_sound arity asg kenv v p n Hty Hsat Hn Hm) as (s' & _ & Hiff).
-        apply Hiff. apply Hnegs. exact Hn.
-    - intros Hv. split; apply Forall_forall.
-      + intros s Hs. apply In_nth_error in Hs as [q Hq].
+      destruct (nth_error l p) as [a|] eqn:Ea; [| apply nth_error_None in Ea; lia].
+      assert (Ha : In a l) by (eapply nth_error_In; eauto).
+      pose proof (Hatoms a Ha) as Has. unfold atom_sat in Has.
+      destruct (a_tup a) as [t|] eqn:Et.
+      + assert (Ef : afact_at asg w l p = (a_rel a, asg t)) by (unfold afact_at; rewrite Ea, Et; auto).
+        split; [| split].
+        * rewrite Ef. split; simpl; [auto|].
+          destruct (Hkind a Ha) as [Hk | Hk]; rewrite Hk in Has; simpl in Has; auto.
+        * intros ->. rewrite Hpi in Ep. inversion Ep; subst p.
+          assert (Hd : is_delta a = true) by (apply (Hdelta pi a Ea); reflexivity).
+          unfold is_delta in Hd. apply kind_eqb_eq in Hd. rewrite Hd in Has. simpl in Has.
+          rewrite Ef. split; simpl; auto.
+        * intros Hlt. destruct (Hmiss j p Hlt Ep) as [(n & Hn & Hm) | (e & He & Hm)].
+          -- apply (neg_matches_sound arity asg kenv v p n Hty Hsat Hn Hm w). apply Hnegs. exact Hn.
+          -- unfold empt_matches in Hm. fold l in Hm. rewrite Ea, Et in Hm. discriminate.
+      + assert (Ef : afact_at asg w l p = (a_rel a, w p)) by (unfold afact_at; rewrite Ea, Et; auto).
+        destruct (Hw p a Ea Et) as [Hsel Hlater]. rewrite Ef. split; [| split].
+        * split; simpl; [auto|].
+          destruct (Hkind a Ha) as [Hk | Hk]; rewrite Hk in Hsel; simpl in Hsel; auto.
+        * intros ->. rewrite Hpi in Ep. inversion Ep; subst p.
+          assert (Hd : is_delta a = true) by (apply (Hdelta pi a Ea); reflexivity).
+          unfold is_delta in Hd. apply kind_eqb_eq in Hd. rewrite Hd in Hsel. simpl in Hsel.
+          split; simpl; auto.
+        * intros Hlt [_ Hd]. simpl in Hd. exact (Hlater j Hlt Ep Hd).
+    - intros [w Hv]. split; [| split]; apply Forall_forall.
+      + intros a Ha0. apply In_nth_error in Ha0 as [q Hq].
         assert (Hql : q < length l) by (apply nth_error_Some; congruence).
         destruct (In_nth_error _ _ (Hsurj q Hql)) as [j Hj].
-        assert (Ef : fact_at asg l q = (s_rel s, asg (s_tup s))) by (unfold fact_at; rewrite Hq; auto).
-        assert (Hs : In s l) by (eapply nth_error_In; eauto).
-        unfold scan_sat. destruct (Hkind s Hs) as [Hk | Hk]; rewrite Hk; simpl.
-        * destruct (Hv j (fact_at asg l q)) as ([_ Hr] & _ & _).
-          { rewrite nth_error_map, Hj. reflexivity. }
-          rewrite Ef in Hr. exact Hr.
-        * assert (q = pi). { apply (Hdelta q s Hq). unfold is_delta. rewrite Hk. reflexivity. }
-          subst q. destruct (Hv i (fact_at asg l pi)) as (_ & Hd & _).
-          { rewrite nth_error_map, Hpi. reflexivity. }
-          destruct (Hd eq_refl) as [_ Hd']. rewrite Ef in Hd'. exact Hd'.
+        assert (Ha : In a l) by (eapply nth_error_In; eauto).
+        assert (Ef : afact_at asg w l q = (a_rel a, match a_tup a with Some t => asg t | None => w q end))
+          by (unfold afact_at; rewrite Hq; auto).
+        assert (Hsel : sel (a_kind a) (a_rel a) (match a_tup a with Some t => asg t | None => w q end)).
+        { destruct (Hkind a Ha) as [Hk | Hk]; rewrite Hk; simpl.
+          - destruct (Hv j (afact_at asg w l q)) as ([_ Hr] & _ & _).
+            { rewrite nth_error_map, Hj. reflexivity. }
+            rewrite Ef in Hr. exact Hr.
+          - assert (q = pi). { apply (Hdelta q a Hq). unfold is_delta. rewrite Hk. reflexivity. }
+            subst q. destruct (Hv i (afact_at asg w l pi)) as (_ & Hd & _).
+            { rewrite nth_error_map, Hpi. reflexivity. }
+            destruct (Hd eq_refl) as [_ Hd']. rewrite Ef in Hd'. exact Hd'. }
+        unfold atom_sat. destruct (a_tup a); eauto.
       + intros n Hn. destruct (Hextra n Hn) as (j & p & Hlt & Hj & Hm).
-        destruct (neg_matches_sound arity asg kenv v p n Hty Hsat Hn Hm) as (s' & _ & Hiff).
-        apply Hiff. destruct (Hv j (fact_at asg l p)) as (_ & _ & Hnd).
+        apply (neg_matches_sound arity asg kenv v p n Hty Hsat Hn Hm w).
+        destruct (Hv j (afact_at asg w l p)) as (_ & _ & Hnd).
         { rewrite nth_error_map, Hj. reflexivity. }
         exact (Hnd Hlt).
+      + intros e He. destruct (Hextra0 e He) as (j & p & Hlt & Hj & Hm).
+        unfold empt_matches in Hm. fold l in Hm.
+        destruct (nth_error l p) as [a|] eqn:Ea; [| discriminate].
+        destruct (a_tup a) as [t0|] eqn:Et; [discriminate|]. apply N.eqb_eq in Hm.
+        assert (Ha : In a l) by (eapply nth_error_In; eauto).
+        assert (Ef : afact_at asg w l p = (a_rel a, w p)) by (unfold afact_at; rewrite Ea, Et; auto).
+        destruct (Hv j (afact_at asg w l p)) as ([_ Hr] & _ & Hnd).
+        { rewrite nth_error_map, Hj. reflexivity. }
+        rewrite Ef in Hr, Hnd. simpl in Hr. rewrite <- Hm in Hr.
+        pose proof He as He'. apply filter_In in He' as [_ Hk]. apply kind_eqb_eq in Hk.
+        intros t Ht. rewrite Hk in Ht. simpl in Ht.
+        assert (Hin : In (e_rel e) scc) by (rewrite Hm; apply Hscc; exact Ha).
+        pose proof (Hnul e He t (HDR _ _ Hin Ht)) as Et0. pose proof (Hnul e He _ Hr) as Ew.
+        apply (Hnd Hlt). split; simpl; [rewrite <- Hm; exact Hin|]. rewrite <- Hm, Ew, <- Et0. exact Ht.
   Qed.
 
   (** *** What an accepted clause satisfies *)
@@ -654,39 +895,45 @@ Section Semantics.
     version_local scc cid i v = OkResult ->
     forallb (scan_kind_ok scc) (v_scans v) = true /\
     v_ins_kind v = KNew /\ In (v_ins_rel v) scc /\
-    (exists n, In n (v_negs v) /\ is_guard v n = true).
+    has_guard v = true /\
+    forallb (test_kind_ok scc) (v_tests v) = true /\
+    forallb (empty_ok scc v) (v_empties v) = true.
   Proof.
     unfold version_local. rewrite !andr_ok, !guard_ok.
-    intros (((((((H1 & H2) & _) & _) & _) & _) & _) & H8).
-    apply andb_true_iff in H2 as [H2 H2']. apply kind_eqb_eq in H2. apply memN_In in H2'.
-    apply existsb_exists in H8. auto.
+    intros (((((((((H1 & H2) & H3) & _) & _) & _) & _) & H8) & H9) & _).
+    apply andb_true_iff in H2 as [H2 H2']. apply kind_eqb_eq in H2. apply memN_In in H2'. auto 10.
   Qed.
 
   Lemma negdelta_check_inv cid i v later :
     negdelta_check scc cid i v later = OkResult ->
-    (forall p, In p later -> exists n, In n (delta_negs v) /\ neg_matches scc v p n = true) /\
-    (forall n, In n (delta_negs v) -> exists p, In p later /\ neg_matches scc v p n = true).
+    (forall p, In p later -> (exists n, In n (delta_negs v) /\ neg_matches scc v p n = true) \/
+                             (exists e, In e (delta_empties v) /\ empt_matches scc v p e = true)) /\
+    (forall n, In n (delta_negs v) -> exists p, In p later /\ neg_matches scc v p n = true) /\
+    (forall e, In e (delta_empties v) -> exists p, In p later /\ empt_matches scc v p e = true).
   Proof.
-    unfold negdelta_check. rewrite andr_ok, guard_ok. intros [H1 H2]. split.
+    unfold negdelta_check. rewrite !andr_ok, !guard_ok. intros [[H1 H2] H3]. split; [| split].
     - intros p Hp.
-      destruct (find (fun p => negb (existsb (neg_matches scc v p) (delta_negs v))) later) eqn:E;
+      destruct (find (fun p => negb (existsb (neg_matches scc v p) (delta_negs v) ||
+                                     existsb (empt_matches scc v p) (delta_empties v))) later) eqn:E;
         [discriminate|].
       pose proof (find_none _ _ E p Hp) as Hf. simpl in Hf. apply negb_false_iff in Hf.
-      apply existsb_exists in Hf. exact Hf.
+      apply orb_true_iff in Hf as [Hf | Hf]; apply existsb_exists in Hf; auto.
     - intros n Hn. rewrite forallb_forall in H2. specialize (H2 n Hn).
       apply existsb_exists in H2. exact H2.
+    - intros e He. rewrite forallb_forall in H3. specialize (H3 e He).
+      apply existsb_exists in H3. exact H3.
   Qed.
 
   Lemma clause_check_inv c :
     clause_check scc c = OkResult ->
     exists v0 rest, c_versions c = v0 :: rest /\
       (forall i v, nth_error (c_versions c) i = Some v ->
-         scans_same (v_scans v) (v_scans v0) = true /\
+         (scans_same (v_scans v) (v_scans v0) = true /\ tests_same (v_tests v) (v_tests v0) = true) /\
          uniform scc v0 v = true /\
          version_local scc (c_id c) i v = OkResult /\
          (exists p, delta_pos scc v = Some p) /\
          negdelta_check scc (c_id c) i v (skipn (S i) (clause_perm scc c)) = OkResult) /\
-      length (c_versions c) = length (scc_scans scc v0) /\
+      length (c_versions c) = length (scc_atoms scc v0) /\
       NoDup (clause_perm scc c).
   Proof.
     unfold clause_check. destruct (c_versions c) as [|v0 rest] eqn:Evs; [discriminate|].
@@ -694,78 +941,138 @@ Section Semantics.
     exists v0, rest. split; auto. split; [| split].
     - intros i v Hi.
       pose proof (check_all_ok _ _ _ H1 i v Hi) as A1. apply guard_ok in A1.
+      apply andb_true_iff in A1.
       pose proof (check_all_ok _ _ _ H1' i v Hi) as A1'. apply guard_ok in A1'.
       pose proof (check_all_ok _ _ _ H2 i v Hi) as A2.
       pose proof (check_all_ok _ _ _ H4 i v Hi) as A4. apply guard_ok in A4.
       pose proof (check_all_ok _ _ _ H6 i v Hi) as A6.
-      repeat split; auto.
+      repeat split; try tauto; auto.
       destruct (delta_pos scc v) as [p|]; [eauto | discriminate].
     - apply Nat.eqb_eq. exact H3.
     - exact (proj1 (nodup_from_ok _ _ _ _ H5)).
   Qed.
 
-  Lemma scc_scans_sig v v0 :
-    scans_same (v_scans v) (v_scans v0) = true ->
-    map (fun s => (s_tup s, s_rel s)) (scc_scans scc v) =
-    map (fun s => (s_tup s, s_rel s)) (scc_scans scc v0).
+  Lemma scc_atoms_sig v v0 :
+    scans_same (v_scans v) (v_scans v0) = true -> tests_same (v_tests v) (v_tests v0) = true ->
+    map (fun a => (a_tup a, a_rel a)) (scc_atoms scc v) =
+    map (fun a => (a_tup a, a_rel a)) (scc_atoms scc v0).
   Proof.
-    intros H. unfold scc_scans. apply (sig_filter (in_scc scc)). apply scans_same_sig. exact H.
+    intros H1 H2. unfold scc_atoms. rewrite !map_app, !map_map. simpl. f_equal.
+    - pose proof (sig_filter (in_scc scc) _ _ (scans_same_sig _ _ H1)) as E.
+      apply (f_equal (map (fun p : N * N => (Some (fst p), snd p)))) in E.
+      rewrite !map_map in E. exact E.
+    - pose proof (sig_filter_tests (in_scc scc) _ _ (tests_same_sig _ _ H2)) as E.
+      apply (f_equal (map (fun r : N => (@None N, r)))) in E.
+      rewrite !map_map in E. exact E.
   Qed.
 
-  Lemma clause_facts_length c asg : length (clause_facts c asg) = length (c_versions c).
+  Lemma clause_facts_length c asg w : length (clause_facts c asg w) = length (c_versions c).
   Proof.
     unfold clause_facts, clause_perm. destruct (c_versions c); [reflexivity|].
     rewrite !map_length. reflexivity.
   Qed.
 
   (** *** Soundness of the clause check: version [i] enumerates exactly the combinations that
-      the abstract scheme gives to version [i]. *)
+      the abstract scheme gives to version [i].  [w] supplies the tuples that stand for the atoms
+      without a scan; on a clause without such atoms the facts do not depend on it
+      ([version_ok_sound_scans]). *)
   Theorem version_ok_sound arity c i v asg kenv :
     clause_check scc c = OkResult -> nth_error (c_versions c) i = Some v ->
     typed_version arity asg v -> sat_eqs asg kenv (v_eqs v) ->
     (forall r t, In r scc -> D r t -> R r t) ->
-    ((Forall (scan_sat asg) (scc_scans scc v) /\ Forall (neg_sat asg kenv) (delta_negs v)) <->
-     version_ok (fset_of R) (fset_of D) i (clause_facts c asg)).
+    (forall e, In e (delta_empties v) -> forall t, R (e_rel e) t -> t = []) ->
+    ((Forall (atom_sat asg) (scc_atoms scc v) /\ Forall (neg_sat asg kenv) (delta_negs v) /\
+      Forall empt_sat (delta_empties v)) <->
+     exists w, version_ok (fset_of R) (fset_of D) i (clause_facts c asg w)).
   Proof.
-    intros Hc Hi Hty Hsat HDR.
+    intros Hc Hi Hty Hsat HDR Hnul.
     destruct (clause_check_inv c Hc) as (v0 & rest & Evs & Hall & Hlen & Hnd).
-    destruct (Hall i v Hi) as (Hsame & _ & Hloc & (pi & Hpi) & Hneg).
+    destruct (Hall i v Hi) as ((Hsame & Hsamet) & _ & Hloc & (pi & Hpi) & Hneg).
     assert (Hsig : forall j v', nth_error (c_versions c) j = Some v' ->
-              map (fun s => (s_tup s, s_rel s)) (scc_scans scc v') =
-              map (fun s => (s_tup s, s_rel s)) (scc_scans scc v0)).
-    { intros j v' Hj. apply scc_scans_sig. apply (Hall j v' Hj). }
+              map (fun a => (a_tup a, a_rel a)) (scc_atoms scc v') =
+              map (fun a => (a_tup a, a_rel a)) (scc_atoms scc v0)).
+    { intros j v' Hj. destruct (Hall j v' Hj) as ((A & B) & _). apply scc_atoms_sig; auto. }
     assert (Hlens : forall j v', nth_error (c_versions c) j = Some v' ->
-              length (scc_scans scc v') = length (c_versions c)).
+              length (scc_atoms scc v') = length (c_versions c)).
     { intros j v' Hj. rewrite Hlen. pose proof (f_equal (@length _) (Hsig j v' Hj)) as E.
       rewrite !map_length in E. exact E. }
-    assert (Hfacts : clause_facts c asg = map (fact_at asg (scc_scans scc v)) (clause_perm scc c)).
-    { unfold clause_facts. rewrite Evs. apply map_ext. intros p. symmetry.
-      apply fact_at_sig. apply (Hsig i v Hi). }
-    rewrite Hfacts.
-    assert (Hrange : forall p, In p (clause_perm scc c) -> p < length (scc_scans scc v)).
+    assert (Hfacts : forall w, clause_facts c asg w =
+                               map (afact_at asg w (scc_atoms scc v)) (clause_perm scc c)).
+    { intros w. unfold clause_facts. rewrite Evs. apply map_ext. intros p. symmetry.
+      apply afact_at_sig. apply (Hsig i v Hi). }
+    assert (Hrange : forall p, In p (clause_perm scc c) -> p < length (scc_atoms scc v)).
     { intros p Hp. unfold clause_perm in Hp. apply in_map_iff in Hp as (v' & Ep & Hv').
       apply In_nth_error in Hv' as [j Hj].
       destruct (Hall j v' Hj) as (_ & _ & _ & (p' & Hp') & _). rewrite Hp' in Ep. subst p'.
       destruct (delta_pos_spec scc v' p Hp') as [(s & Hs & _) _].
       rewrite (Hlens i v Hi), <- (Hlens j v' Hj). apply nth_error_Some. congruence. }
-    destruct (version_local_inv _ _ _ Hloc) as (Hkinds & _).
+    destruct (version_local_inv _ _ _ Hloc) as (Hkinds & _ & _ & _ & Hkindt & _).
     destruct (delta_pos_spec scc v pi Hpi) as [(spi & Hspi & Hdpi) Huniq].
-    destruct (negdelta_check_inv _ _ _ _ Hneg) as [Hmiss Hextra].
-    apply version_core with (arity := arity) (kenv := kenv) (pi := pi); auto.
-    - intros s Hs. apply filter_In in Hs as [Hs _].
-      rewrite forallb_forall in Hkinds. specialize (Hkinds s Hs). unfold scan_kind_ok in Hkinds.
-      destruct (s_kind s); auto. discriminate.
+    destruct (negdelta_check_inv _ _ _ _ Hneg) as (Hmiss & Hextra & Hextra0).
+    assert (Hcore := version_core arity asg kenv v (clause_perm scc c) i pi).
+    assert (X : (exists w, version_ok (fset_of R) (fset_of D) i (clause_facts c asg w)) <->
+                (exists w, version_ok (fset_of R) (fset_of D) i
+                             (map (afact_at asg w (scc_atoms scc v)) (clause_perm scc c)))).
+    { split; intros [w Hw]; exists w; [rewrite <- Hfacts | rewrite Hfacts]; exact Hw. }
+    rewrite X. apply Hcore; auto.
+    - intros a Ha. destruct (scc_atoms_In scc v a Ha) as [(s & Hs & ->) | (e & He & ->)]; simpl.
+      + apply filter_In in Hs as [Hs _].
+        rewrite forallb_forall in Hkinds. specialize (Hkinds s Hs). unfold scan_kind_ok in Hkinds.
+        destruct (s_kind s); auto. discriminate.
+      + apply filter_In in He as [He _].
+        rewrite forallb_forall in Hkindt. specialize (Hkindt e He). unfold test_kind_ok in Hkindt.
+        destruct (e_kind e); auto. discriminate.
     - unfold clause_perm. rewrite nth_error_map, Hi. simpl. rewrite Hpi. reflexivity.
     - intros q s Hq. split; [apply Huniq; exact Hq|].
       intros ->. rewrite Hspi in Hq. inversion Hq; subst. exact Hdpi.
     - intros q Hq.
-      apply (NoDup_length_incl Hnd (l' := seq 0 (length (scc_scans scc v)))).
+      apply (NoDup_length_incl Hnd (l' := seq 0 (length (scc_atoms scc v)))).
       + rewrite seq_length. unfold clause_perm. rewrite map_length, (Hlens i v Hi). lia.
       + intros p Hp. apply in_seq. specialize (Hrange p Hp). lia.
       + apply in_seq. lia.
     - intros j p Hlt Hj. apply Hmiss. apply In_skipn_iff. exists j. split; [lia | exact Hj].
     - intros n Hn. destruct (Hextra n Hn) as (p & Hp & Hm).
       apply In_skipn_iff in Hp as (j & Hle & Hj). exists j, p. repeat split; auto.
+    - intros e He. destruct (Hextra0 e He) as (p & Hp & Hm).
+      apply In_skipn_iff in Hp as (j & Hle & Hj). exists j, p. repeat split; auto.
+  Qed.
+
+  (** On a version whose SCC atoms all have scans this is the statement about the scans alone; the
+      facts do not depend on [w]. *)
+  Lemma clause_facts_scans c asg w w' v0 rest :
+    c_versions c = v0 :: rest -> scc_tests scc v0 = [] -> clause_facts c asg w = clause_facts c asg w'.
+  Proof.
+    intros Evs Hno. unfold clause_facts. rewrite Evs. apply map_ext. intros p.
+    unfold scc_atoms. rewrite Hno. simpl. rewrite app_nil_r, !afact_at_scans. reflexivity.
+  Qed.
+
+  Theorem version_ok_sound_scans arity c i v asg kenv w :
+    clause_check scc c = OkResult -> nth_error (c_versions c) i = Some v ->
+    scc_tests scc v = [] ->
+    typed_version arity asg v -> sat_eqs asg kenv (v_eqs v) ->
+    (forall r t, In r scc -> D r t -> R r t) ->
+    ((Forall (scan_sat asg) (scc_scans scc v) /\ Forall (neg_sat asg kenv) (delta_negs v)) <->
+     version_ok (fset_of R) (fset_of D) i (clause_facts c asg w)).
+  Proof.
+    intros Hc Hi Hno Hty Hsat HDR.
+    destruct (clause_check_inv c Hc) as (v0 & rest & Evs & Hall & _).
+    destruct (Hall i v Hi) as ((_ & Hsamet) & _ & _ & _ & Hneg).
+    destruct (negdelta_check_inv _ _ _ _ Hneg) as (_ & _ & Hextra0).
+    assert (Hno0 : scc_tests scc v0 = []).
+    { pose proof (sig_filter_tests (in_scc scc) _ _ (tests_same_sig _ _ Hsamet)) as E.
+      fold (scc_tests scc v) in E. fold (scc_tests scc v0) in E. rewrite Hno in E. simpl in E.
+      symmetry in E. apply map_eq_nil in E. exact E. }
+    assert (Hde : delta_empties v = []).
+    { destruct (delta_empties v) as [|e l] eqn:E; [reflexivity|]. exfalso.
+      destruct (Hextra0 e (or_introl eq_refl)) as (p & _ & Hm).
+      unfold empt_matches, scc_atoms in Hm. rewrite Hno in Hm. simpl in Hm. rewrite app_nil_r in Hm.
+      rewrite nth_error_map in Hm. destruct (nth_error (scc_scans scc v) p); simpl in Hm; discriminate. }
+    pose proof (version_ok_sound arity c i v asg kenv Hc Hi Hty Hsat HDR) as Hs.
+    rewrite Hde in Hs. specialize (Hs (fun e H => match H with end)).
+    rewrite atoms_sat_iff, Hno in Hs. split.
+    - intros [H1 H2]. destruct (proj1 Hs) as [w' Hw']; [repeat split; auto|].
+      rewrite (clause_facts_scans c asg w w' v0 rest Evs Hno0). exact Hw'.
+    - intros Hv. destruct (proj2 Hs (ex_intro _ w Hv)) as ((H1 & _) & H2 & _). auto.
   Qed.
 
   (** For the default case that the SIPS keeps the SCC atoms in order, the facts are those of the
@@ -780,32 +1087,39 @@ Section Semantics.
       rewrite Nat.add_1_r in IH. exact IH.
   Qed.
 
-  Lemma clause_facts_identity c asg v0 rest :
-    c_versions c = v0 :: rest ->
+  Lemma clause_facts_identity c asg w v0 rest :
+    c_versions c = v0 :: rest -> scc_tests scc v0 = [] ->
     clause_perm scc c = seq 0 (length (scc_scans scc v0)) ->
-    clause_facts c asg = map (fun s => (s_rel s, asg (s_tup s))) (scc_scans scc v0).
+    clause_facts c asg w = map (fun s => (s_rel s, asg (s_tup s))) (scc_scans scc v0).
   Proof.
-    intros Evs Hperm. unfold clause_facts. rewrite Evs, Hperm.
-    exact (fact_at_seq asg (scc_scans scc v0) []).
+    intros Evs Hno Hperm. unfold clause_facts. rewrite Evs, Hperm. unfold scc_atoms. rewrite Hno.
+    simpl. rewrite app_nil_r. rewrite <- (fact_at_seq asg (scc_scans scc v0) []).
+    apply map_ext. intros p. apply afact_at_scans.
   Qed.
 
-  (** *** The head guard *)
+  (** *** The head guard: [NOT (args) IN H], or [ISEMPTY(H)] for a head without arguments *)
   Definition head_fact (asg : N -> tuple) (kenv : N -> val) (v : version) : fact :=
     (v_ins_rel v, map (ev asg kenv) (v_ins_args v)).
 
   Theorem head_guard_sound c i v :
     clause_check scc c = OkResult -> nth_error (c_versions c) i = Some v ->
     v_ins_kind v = KNew /\ In (v_ins_rel v) scc /\
-    forall asg kenv, Forall (neg_sat asg kenv) (v_negs v) -> ~ fset_of R (head_fact asg kenv v).
+    forall asg kenv, Forall (neg_sat asg kenv) (v_negs v) -> Forall empt_sat (v_empties v) ->
+                     ~ fset_of R (head_fact asg kenv v).
   Proof.
     intros Hc Hi. destruct (clause_check_inv c Hc) as (v0 & rest & _ & Hall & _).
     destruct (Hall i v Hi) as (_ & _ & Hloc & _).
-    destruct (version_local_inv _ _ _ Hloc) as (_ & Hk & Hr & n & Hn & Hg).
-    split; auto. split; auto. intros asg kenv Hnegs [_ Hin]. simpl in Hin.
-    rewrite Forall_forall in Hnegs. apply (Hnegs n Hn). unfold neg_sat.
-    unfold is_guard in Hg. apply andb_true_iff in Hg as [Hg Ha]. apply andb_true_iff in Hg as [Hg1 Hg2].
-    apply kind_eqb_eq in Hg1. apply N.eqb_eq in Hg2. apply elems_eqb_eq in Ha.
-    rewrite Hg1, Hg2, Ha. exact Hin.
+    destruct (version_local_inv _ _ _ Hloc) as (_ & Hk & Hr & Hg & _).
+    split; auto. split; auto. intros asg kenv Hnegs Hempt [_ Hin]. simpl in Hin.
+    rewrite Forall_forall in Hnegs, Hempt. unfold has_guard in Hg.
+    destruct (v_ins_args v) as [|x args] eqn:Eargs; simpl in Hg.
+    - apply existsb_exists in Hg as (e & He & Hg). unfold is_guard0 in Hg.
+      apply andb_true_iff in Hg as [Hg1 Hg2]. apply kind_eqb_eq in Hg1. apply N.eqb_eq in Hg2.
+      apply (Hempt e He []). rewrite Hg1, Hg2. exact Hin.
+    - apply existsb_exists in Hg as (n & Hn & Hg). apply (Hnegs n Hn). unfold neg_sat.
+      unfold is_guard in Hg. apply andb_true_iff in Hg as [Hg Ha]. apply andb_true_iff in Hg as [Hg1 Hg2].
+      apply kind_eqb_eq in Hg1. apply N.eqb_eq in Hg2. apply elems_eqb_eq in Ha.
+      rewrite Hg1, Hg2, Ha, Eargs. exact Hin.
   Qed.
 End Semantics.
 
@@ -814,9 +1128,13 @@ Arguments sat_eqs {val}.
 Arguments sel {val}.
 Arguments scan_sat {val}.
 Arguments neg_sat {val}.
+Arguments test_sat {val}.
+Arguments empt_sat {val}.
+Arguments atom_sat {val}.
 Arguments fset_of {val}.
 Arguments typed_version {val}.
 Arguments fact_at {val}.
+Arguments afact_at {val}.
 Arguments clause_facts {val}.
 Arguments head_fact {val}.
 
@@ -906,11 +1224,12 @@ Lemma frame_check_inv s :
   (forall r, In r (st_scc s) <-> In r (map u_rel (st_update s))) /\
   NoDup (map u_rel (st_update s)) /\
   (forall u, In u (st_update s) -> flags_ok u = true) /\
-  (forall r n, In (r, n) (st_limits s) -> In r (st_scc s)).
+  (forall r n, In (r, n) (st_limits s) -> In r (st_scc s)) /\
+  (forall r, In r (st_nullary s) -> In r (st_scc s)).
 Proof.
-  unfold frame_check. rewrite !andr_ok. intros (((((H1 & H2) & H3) & H4) & H5) & H6).
+  unfold frame_check. rewrite !andr_ok. intros ((((((H1 & H2) & H3) & H4) & H5) & H6) & H7).
   split; [exact (same_set_ok _ _ _ H1)|]. split; [exact (same_set_ok _ _ _ H2)|].
-  split; [exact (same_set_ok _ _ _ H3)|]. split; [| split].
+  split; [exact (same_set_ok _ _ _ H3)|]. split; [| split; [| split]].
   - destruct (first_dup [] (map u_rel (st_update s))) eqn:E; [discriminate|].
     exact (proj1 (first_dup_none _ _ E)).
   - intros u Hu. destruct (find (fun u => negb (flags_ok u)) (st_update s)) eqn:E; [discriminate|].
@@ -918,6 +1237,10 @@ Proof.
   - intros r n Hin.
     destruct (find (fun p => negb (in_scc (st_scc s) (fst p))) (st_limits s)) eqn:E; [discriminate|].
     pose proof (find_none _ _ E (r, n) Hin) as Hf. simpl in Hf. apply negb_false_iff in Hf.
+    apply memN_In. exact Hf.
+  - intros r Hin. unfold first_missing in H7.
+    destruct (find (fun r => negb (memN r (st_scc s))) (st_nullary s)) eqn:E; [discriminate|].
+    pose proof (find_none _ _ E r Hin) as Hf. simpl in Hf. apply negb_false_iff in Hf.
     apply memN_In. exact Hf.
 Qed.
 
@@ -929,9 +1252,26 @@ Section Frame.
   (** the contents of all main, @delta and @new relations *)
   Record state := mkState { stR : relI; stD : relI; stN : relI }.
 
-  (** [FOR t0 IN @new_r INSERT t0 INTO r] *)
+  (** the relations whose copy statements have the form for arity 0 ([st_nullary]) *)
+  Variable nul : list N.
+
+  (** What a copy statement of [generateMergeRelations] reads from the source [X] of relation [r]:
+      [FOR t0 IN src INSERT (t0.0,..) INTO dst] copies the tuples; the form for arity 0,
+      [IF (NOT ISEMPTY(src)) INSERT () INTO dst], inserts the empty tuple when [src] is not empty. *)
+  Definition copied (r : N) (X : relI) (t : tuple val) : Prop :=
+    if memN r nul then t = [] /\ exists t', X r t' else X r t.
+
+  Lemma copied_iff r (X : relI) t :
+    (In r nul -> forall t', X r t' -> t' = []) -> (copied r X t <-> X r t).
+  Proof.
+    unfold copied. destruct (memN r nul) eqn:E; [| tauto]. apply memN_In in E. intros H. split.
+    - intros [-> [t' Ht']]. rewrite <- (H E t' Ht'). exact Ht'.
+    - intros Ht. split; [exact (H E t Ht) | eauto].
+  Qed.
+
+  (** [FOR t0 IN @new_r INSERT t0 INTO r], or [IF (NOT ISEMPTY(@new_r)) INSERT () INTO r] *)
   Definition st_merge (r : N) (s : state) : state :=
-    mkState (fun r' t => stR s r' t \/ (r' = r /\ stN s r' t)) (stD s) (stN s).
+    mkState (fun r' t => stR s r' t \/ (r' = r /\ copied r' (stN s) t)) (stD s) (stN s).
   (** [SWAP (@delta_r, @new_r)] *)
   Definition st_swap (r : N) (s : state) : state :=
     mkState (stR s)
@@ -946,9 +1286,10 @@ Section Frame.
     let s2 := if u_swap u then st_swap (u_rel u) s1 else s1 in
     if u_clear u then st_clear (u_rel u) s2 else s2.
   Definition run_updates (us : list update) (s : state) : state := fold_left run_update us s.
-  (** [FOR t0 IN r INSERT t0 INTO @delta_r] for the relations of the preamble *)
+  (** [FOR t0 IN r INSERT t0 INTO @delta_r], or [IF (NOT ISEMPTY(r)) INSERT () INTO @delta_r], for
+      the relations of the preamble *)
   Definition run_preamble (pre : list N) (s : state) : state :=
-    mkState (stR s) (fun r t => stD s r t \/ (In r pre /\ stR s r t)) (stN s).
+    mkState (stR s) (fun r t => stD s r t \/ (In r pre /\ copied r (stR s) t)) (stN s).
   (** [EXIT (ISEMPTY(@new_r1) AND ...)] *)
   Definition exit_cond (exits : list N) (s : state) : Prop :=
     forall r, In r exits -> forall t, ~ stN s r t.
@@ -957,8 +1298,11 @@ Section Frame.
     exists r n, In (r, n) lims /\
       size_ge (fun f : factv => fst f = r) (N.to_nat n) (fun f => stR s (fst f) (snd f)).
 
+  (** the @new relations with the arity-0 statements hold at most the empty tuple *)
+  Definition new_nullary (s : state) : Prop := forall r t, In r nul -> stN s r t -> t = [].
+
   Lemma run_update_spec s u r t :
-    flags_ok u = true ->
+    flags_ok u = true -> new_nullary s ->
     (r = u_rel u ->
        (stR (run_update s u) r t <-> stR s r t \/ stN s r t) /\
        (stD (run_update s u) r t <-> stN s r t) /\ ~ stN (run_update s u) r t) /\
@@ -967,13 +1311,15 @@ Section Frame.
        (stD (run_update s u) r t <-> stD s r t) /\
        (stN (run_update s u) r t <-> stN s r t)).
   Proof.
-    unfold flags_ok, run_update. intros H.
+    unfold flags_ok, run_update. intros H Hn.
     apply andb_true_iff in H as [H H3]. apply andb_true_iff in H as [H1 H2].
-    rewrite H1, H2, H3. simpl. split; intros E; repeat split; try tauto.
+    rewrite H1, H2, H3. simpl.
+    pose proof (copied_iff r (stN s) t (fun Hin t' => Hn r t' Hin)) as Hc.
+    split; intros E; repeat split; try tauto.
   Qed.
 
   Lemma run_updates_spec us : forall s,
-    NoDup (map u_rel us) -> (forall u, In u us -> flags_ok u = true) ->
+    NoDup (map u_rel us) -> (forall u, In u us -> flags_ok u = true) -> new_nullary s ->
     forall r t,
       (In r (map u_rel us) ->
          (stR (run_updates us s) r t <-> stR s r t \/ stN s r t) /\
@@ -983,12 +1329,17 @@ Section Frame.
          (stD (run_updates us s) r t <-> stD s r t) /\
          (stN (run_updates us s) r t <-> stN s r t)).
   Proof.
-    induction us as [|u us IH]; intros s Hnd Hfl r t; simpl.
+    induction us as [|u us IH]; intros s Hnd Hfl Hn r t; simpl.
     - split; [tauto|]. intros _. repeat split; tauto.
     - inversion Hnd as [|? ? Hnotin Hnd']; subst.
       assert (Hu : flags_ok u = true) by (apply Hfl; simpl; auto).
-      destruct (run_update_spec s u r t Hu) as [Heq Hne].
-      destruct (IH (run_update s u) Hnd' (fun u' H => Hfl u' (or_intror H)) r t) as [Hin Hout].
+      destruct (run_update_spec s u r t Hu Hn) as [Heq Hne].
+      assert (Hn' : new_nullary (run_update s u)).
+      { intros r' t' Hin Ht'. destruct (run_update_spec s u r' t' Hu Hn) as [Heq' Hne'].
+        destruct (N.eq_dec r' (u_rel u)) as [E | E].
+        - destruct (Heq' E) as (_ & _ & A). contradiction.
+        - destruct (Hne' E) as (_ & _ & A). apply (Hn r' t' Hin). apply A. exact Ht'. }
+      destruct (IH (run_update s u) Hnd' (fun u' H => Hfl u' (or_intror H)) Hn' r t) as [Hin Hout].
       fold (run_updates us (run_update s u)). split.
       + intros [E | Hr].
         * symmetry in E. destruct (Heq E) as (A1 & A2 & A3).
@@ -1013,6 +1364,7 @@ Arguments run_updates {val}.
 Arguments run_preamble {val}.
 Arguments exit_cond {val}.
 Arguments limits_hit {val}.
+Arguments new_nullary {val}.
 
 Section FrameSound.
   Variable val : Type.
@@ -1024,6 +1376,7 @@ Section FrameSound.
   Hypothesis frame_ok : frame_check s = OkResult.
 
   Notation scc := (st_scc s).
+  Notation nul := (st_nullary s).
   Notation NewF := (New rules arity fire).
 
   (** the disjunction of the size-limit exits, on the set of SCC facts *)
@@ -1037,22 +1390,25 @@ Section FrameSound.
     exists l. repeat split; auto; try (apply (Hl x H0)). apply H. apply (Hl x H0).
   Qed.
 
-  (** after the preamble the delta relations of the SCC hold the main relations *)
+  (** after the preamble the delta relations of the SCC hold the main relations; the main
+      relations with the arity-0 copy statement hold at most the empty tuple *)
   Theorem frame_preamble_sound (st : state val) :
     (forall r t, In r scc -> ~ stD st r t) ->
-    forall f, fset_of scc (stD (run_preamble (st_preamble s) st)) f <-> fset_of scc (stR st) f.
+    (forall r t, In r nul -> stR st r t -> t = []) ->
+    forall f, fset_of scc (stD (run_preamble nul (st_preamble s) st)) f <-> fset_of scc (stR st) f.
   Proof.
     destruct (frame_check_inv s frame_ok) as (Hpre & _).
-    intros Hempty [r t]. unfold fset_of. simpl. split.
-    - intros [Hr [Hd | [_ H]]]; [exfalso; exact (Hempty r t Hr Hd) | auto].
-    - intros [Hr H]. split; auto. right. split; auto. apply Hpre. exact Hr.
+    intros Hempty Hnul [r t]. unfold fset_of. simpl.
+    pose proof (copied_iff val nul r (stR st) t (fun Hin t' => Hnul r t' Hin)) as Hc. split.
+    - intros [Hr [Hd | [_ H]]]; [exfalso; exact (Hempty r t Hr Hd) | split; auto; apply Hc; exact H].
+    - intros [Hr H]. split; auto. right. split; [apply Hpre; exact Hr | apply Hc; exact H].
   Qed.
 
   (** the size-limit exits read the main relations of SCC relations *)
   Lemma frame_limits_sound (st : state val) :
     limits_hit (st_limits s) st <-> limit_hit_of (fset_of scc (stR st)).
   Proof.
-    destruct (frame_check_inv s frame_ok) as (_ & _ & _ & _ & _ & Hlim).
+    destruct (frame_check_inv s frame_ok) as (_ & _ & _ & _ & _ & Hlim & _).
     split; intros (r & n & Hin & l & Hnd & Hlen & Hl); exists r, n; (split; [exact Hin|]);
       exists l; repeat split; auto; try (apply (Hl x H)).
     - rewrite (proj1 (Hl x H)). exact (Hlim r n Hin).
@@ -1065,7 +1421,8 @@ Section FrameSound.
   Theorem frame_step_sound (st : state val) :
     let Rf := fset_of scc (stR st) in
     let Df := fset_of scc (stD st) in
-    let st' := run_updates (st_update s) st in
+    let st' := run_updates nul (st_update s) st in
+    new_nullary nul st ->
     (forall f, fset_of scc (stN st) f <-> NewF Rf Df f) ->
     (exit_cond (st_exit s) st <-> (forall h, ~ NewF Rf Df h)) /\
     (forall f, fset_of scc (stR st') f <-> (Rf f \/ NewF Rf Df f)) /\
@@ -1073,9 +1430,9 @@ Section FrameSound.
     (forall f, ~ fset_of scc (stN st') f) /\
     (forall r t, ~ In r scc -> (stR st' r t <-> stR st r t)).
   Proof.
-    intros Rf Df st' Hnew.
+    intros Rf Df st' Hnn Hnew.
     destruct (frame_check_inv s frame_ok) as (_ & Hexit & Hupd & Hnd & Hfl & _).
-    pose proof (run_updates_spec val (st_update s) st Hnd Hfl) as Hspec. fold st' in Hspec.
+    pose proof (run_updates_spec val nul (st_update s) st Hnd Hfl Hnn) as Hspec. fold st' in Hspec.
     split; [| split; [| split; [| split]]].
     - split.
       + intros He h Hh. apply Hnew in Hh as [Hr Hn]. apply Hexit in Hr. exact (He _ Hr _ Hn).
@@ -1110,15 +1467,18 @@ Section FrameSound.
   | rl_exit_limit st : limits_hit (st_limits s) (run_body st) -> ram_loop st (stR st)
   | rl_continue st res :
       ~ exit_cond (st_exit s) (run_body st) -> ~ limits_hit (st_limits s) (run_body st) ->
-      ram_loop (run_updates (st_update s) (run_body st)) res -> ram_loop st res.
+      ram_loop (run_updates nul (st_update s) (run_body st)) res -> ram_loop st res.
 
   (** [Good]: an invariant of the loop-head states under which the body is known to compute [New]
       (take [fun _ => True] if it does so unconditionally). *)
   Variable Good : state val -> Prop.
   Hypothesis body_spec : forall st, Good st -> forall f,
     fset_of scc (body (stR st) (stD st)) f <-> NewF (fset_of scc (stR st)) (fset_of scc (stD st)) f.
+  (** the body inserts only the empty tuple into the relations with the arity-0 statements *)
+  Hypothesis body_nullary : forall st, Good st -> forall r t,
+    In r nul -> body (stR st) (stD st) r t -> t = [].
   Hypothesis good_step : forall st, Good st -> (forall f, ~ fset_of scc (stN st) f) ->
-    Good (run_updates (st_update s) (run_body st)).
+    Good (run_updates nul (st_update s) (run_body st)).
 
   Lemma run_body_new (st : state val) :
     Good st -> (forall f, ~ fset_of scc (stN st) f) ->
@@ -1127,6 +1487,14 @@ Section FrameSound.
   Proof.
     intros Hg Hempty f. unfold run_body. simpl. rewrite <- (body_spec st Hg).
     pose proof (Hempty f) as He. unfold fset_of in *. simpl. tauto.
+  Qed.
+
+  Lemma run_body_nullary (st : state val) :
+    Good st -> (forall f, ~ fset_of scc (stN st) f) -> new_nullary nul (run_body st).
+  Proof.
+    destruct (frame_check_inv s frame_ok) as (_ & _ & _ & _ & _ & _ & Hsub).
+    intros Hg Hempty r t Hin [Hn | Hb]; [| exact (body_nullary st Hg r t Hin Hb)].
+    exfalso. apply (Hempty (r, t)). split; simpl; auto.
   Qed.
 
   (** The emitted loop, started with empty @new relations, is a run of the abstract loop on the
@@ -1138,10 +1506,12 @@ Section FrameSound.
   Proof.
     induction 1 as [st He | st Hl | st res Hne Hnl _ IH]; intros Hg Hempty.
     - exists (fset_of scc (stR st)). split; [| tauto]. apply run_exit_empty.
-      apply (proj1 (frame_step_sound (run_body st) (run_body_new st Hg Hempty))). exact He.
+      apply (proj1 (frame_step_sound (run_body st) (run_body_nullary st Hg Hempty)
+                      (run_body_new st Hg Hempty))). exact He.
     - exists (fset_of scc (stR st)). split; [| tauto]. apply run_exit_limit.
       apply (frame_limits_sound (run_body st)). exact Hl.
-    - destruct (frame_step_sound (run_body st) (run_body_new st Hg Hempty)) as (E1 & E2 & E3 & E4 & _).
+    - destruct (frame_step_sound (run_body st) (run_body_nullary st Hg Hempty)
+                  (run_body_new st Hg Hempty)) as (E1 & E2 & E3 & E4 & _).
       destruct (IH (good_step st Hg Hempty) E4) as (res' & Hrun & Hres).
       destruct (loop_run_ext _ _ rules arity fire limit_hit_of limit_hit_of_ext _ _ _ Hrun
                   (fun f => fset_of scc (stR st) f \/ NewF (fset_of scc (stR st)) (fset_of scc (stD st)) f)
@@ -1181,16 +1551,30 @@ Proof.
   apply elem_eqb_eq in H1, H2. destruct p, q; simpl in *; subst; reflexivity.
 Qed.
 
+Lemma test_eqb_eq a b : test_eqb a b = true -> a = b.
+Proof.
+  unfold test_eqb. intros H. apply andb_true_iff in H as [H1 H2].
+  apply N.eqb_eq in H1. apply kind_eqb_eq in H2. destruct a, b; simpl in *; subst; reflexivity.
+Qed.
+
 Lemma uniform_inv scc v0 v :
   uniform scc v0 v = true ->
   lower_scans scc v = lower_scans scc v0 /\ v_eqs v = v_eqs v0 /\
-  lower_negs scc v = lower_negs scc v0 /\ v_ins_rel v = v_ins_rel v0 /\ v_ins_args v = v_ins_args v0.
+  lower_negs scc v = lower_negs scc v0 /\ v_ins_rel v = v_ins_rel v0 /\ v_ins_args v = v_ins_args v0 /\
+  lower_tests scc v = lower_tests scc v0 /\ lower_empties scc v = lower_empties scc v0.
 Proof.
-  unfold uniform. rewrite !andb_true_iff. intros (((((H1 & H2) & H3) & _) & H5) & H6).
+  unfold uniform. rewrite !andb_true_iff. intros (((((((H1 & H2) & H3) & _) & H5) & H6) & H7) & H8).
   split; [exact (list_eqb_eq _ _ scan_eqb_eq _ _ H1)|].
   split; [exact (list_eqb_eq _ _ eq_pair_eqb_eq _ _ H2)|].
   split; [exact (list_eqb_eq _ _ neg_eqb_eq _ _ H3)|].
-  split; [apply N.eqb_eq; exact H5 | apply elems_eqb_eq; exact H6].
+  split; [apply N.eqb_eq; exact H5|]. split; [apply elems_eqb_eq; exact H6|].
+  split; [exact (list_eqb_eq _ _ test_eqb_eq _ _ H7) | exact (list_eqb_eq _ _ test_eqb_eq _ _ H8)].
+Qed.
+
+Lemma nullary_head_inv v r : nullary_head v r = true -> r = v_ins_rel v /\ v_ins_args v = [].
+Proof.
+  unfold nullary_head. intros H. apply andb_true_iff in H as [H1 H2]. apply N.eqb_eq in H1.
+  split; auto. destruct (v_ins_args v); [reflexivity | discriminate].
 Qed.
 
 Lemma version_local_inv_negs scc cid i v :
@@ -1200,11 +1584,18 @@ Lemma version_local_inv_negs scc cid i v :
   (forall n, In n (v_negs v) ->
      (n_kind n = KDelta /\ In (n_rel n) scc) \/
      (n_kind n = KMain /\ In (n_rel n) scc /\ is_guard v n = true) \/
-     (n_kind n = KMain /\ ~ In (n_rel n) scc)).
+     (n_kind n = KMain /\ ~ In (n_rel n) scc)) /\
+  (forall e, In e (v_tests v) ->
+     e_kind e = KMain \/ (e_kind e = KDelta /\ In (e_rel e) scc)) /\
+  (forall e, In e (v_empties v) ->
+     (e_kind e = KDelta /\ In (e_rel e) scc) \/
+     (e_kind e = KMain /\ In (e_rel e) scc /\ e_rel e = v_ins_rel v /\ v_ins_args v = []) \/
+     (e_kind e = KMain /\ ~ In (e_rel e) scc) \/
+     (e_kind e = KNew /\ e_rel e = v_ins_rel v /\ v_ins_args v = [])).
 Proof.
   unfold version_local. rewrite !andr_ok, !guard_ok.
-  intros (((((((H1 & _) & _) & _) & H5) & H6) & H7) & _).
-  rewrite forallb_forall in H1, H5, H6, H7. split.
+  intros (((((((((H1 & _) & H3) & _) & H5) & H6) & H7) & _) & H9) & _).
+  rewrite forallb_forall in H1, H3, H5, H6, H7, H9. split; [| split; [| split]].
   - intros s Hs. specialize (H1 s Hs). unfold scan_kind_ok in H1.
     destruct (s_kind s); auto; [| discriminate]. right. split; auto. apply memN_In. exact H1.
   - intros n Hn. specialize (H5 n Hn). specialize (H6 n Hn). specialize (H7 n Hn).
@@ -1215,6 +1606,14 @@ Proof.
       * right. right. split; auto. intros Hin. apply memN_In in Hin. unfold in_scc in E. congruence.
     + left. split; auto. apply memN_In. exact H6.
     + discriminate.
+  - intros e He. specialize (H3 e He). unfold test_kind_ok in H3.
+    destruct (e_kind e); auto; [| discriminate]. right. split; auto. apply memN_In. exact H3.
+  - intros e He. specialize (H9 e He). unfold empty_ok in H9. destruct (e_kind e).
+    + destruct (in_scc scc (e_rel e)) eqn:E.
+      * right. left. apply nullary_head_inv in H9 as [A B]. repeat split; auto. apply memN_In. exact E.
+      * right. right. left. split; auto. intros Hin. apply memN_In in Hin. unfold in_scc in E. congruence.
+    + left. split; auto. apply memN_In. exact H9.
+    + right. right. right. apply nullary_head_inv in H9 as [A B]. auto.
 Qed.
 
 Lemma same_sig_In l1 : forall l2 s2,
@@ -1244,27 +1643,35 @@ Section Body.
     forall v, In v (c_versions c) ->
       (forall n, In n (v_negs v) -> length (n_args n) = arity (n_rel n)) /\
       length (v_ins_args v) = arity (v_ins_rel v).
+  (** [ISEMPTY(@delta_r)] stands for a negated delta only when [r] has arity 0; [stratum_check]
+      compares with the relations that have the arity-0 copy statements ([nullary_check]) *)
+  Definition empties_nullary (c : clause) : Prop :=
+    forall v e, In v (c_versions c) -> In e (delta_empties v) -> arity (e_rel e) = 0.
 
-  (** the QUERY of one version inserts [h] *)
+  (** the QUERY of one version inserts [h].  The [BREAK]s are not part of it: they end a scan early. *)
   Definition version_emits (R D Nw : rel_interp val) (cid : N) (v : version) (h : fact val) : Prop :=
     exists asg,
       Forall (scan_sat R D Nw asg) (v_scans v) /\ sat_eqs dflt asg (kv asg) (v_eqs v) /\
       Forall (neg_sat dflt R D Nw asg (kv asg)) (v_negs v) /\ others_sat cid asg /\
-      h = head_fact dflt asg (kv asg) v.
+      h = head_fact dflt asg (kv asg) v /\
+      Forall (test_sat R D Nw) (v_tests v) /\ Forall (empt_sat R D Nw) (v_empties v).
 
   (** the rule of the abstract scheme that a clause stands for: everything but the SCC atoms
-      (lower-stratum scans and negations, equalities, other filters), read off version 0 *)
+      (lower-stratum scans, negations and emptiness tests, equalities, other filters), read off
+      version 0; an SCC atom without a scan stands for any tuple ([w]) *)
   Definition fire_clause (c : clause) (ts : list (fact val)) (h : fact val) : Prop :=
     match c_versions c with
     | [] => False
     | v0 :: _ =>
-        exists asg,
+        exists asg w,
           (forall s, In s (v_scans v0) -> length (asg (s_tup s)) = arity (s_rel s)) /\
           Forall (fun s => L (s_rel s) (asg (s_tup s))) (lower_scans scc v0) /\
           sat_eqs dflt asg (kv asg) (v_eqs v0) /\
           Forall (fun n => ~ L (n_rel n) (map (ev dflt asg (kv asg)) (n_args n))) (lower_negs scc v0) /\
           others_sat (c_id c) asg /\
-          ts = clause_facts scc c asg /\ h = head_fact dflt asg (kv asg) v0
+          ts = clause_facts scc c asg w /\ h = head_fact dflt asg (kv asg) v0 /\
+          Forall (fun e => exists t, L (e_rel e) t) (lower_tests scc v0) /\
+          Forall (fun e => forall t, ~ L (e_rel e) t) (lower_empties scc v0)
     end.
 
   Variables R D Nw : rel_interp val.
@@ -1273,20 +1680,26 @@ Section Body.
   Hypothesis R_lower : forall r t, ~ In r scc -> (R r t <-> L r t).
 
   Theorem version_emits_iff c i v h :
-    clause_check scc c = OkResult -> nth_error (c_versions c) i = Some v -> static_typed c ->
+    clause_check scc c = OkResult -> nth_error (c_versions c) i = Some v ->
+    static_typed c -> empties_nullary c ->
+    (forall e, In e (v_empties v) -> e_kind e = KNew -> forall t, ~ Nw (e_rel e) t) ->
     (version_emits R D Nw (c_id c) v h <->
      ~ fset_of scc R h /\
      exists ts, version_ok (fset_of scc R) (fset_of scc D) i ts /\ fire_clause c ts h).
   Proof.
-    intros Hc Hi Hst.
+    intros Hc Hi Hst Hen HNw.
     destruct (clause_check_inv scc c Hc) as (v0 & rest & Evs & Hall & _).
-    destruct (Hall i v Hi) as (Hsame & Hunif & Hloc & _).
-    destruct (uniform_inv _ _ _ Hunif) as (Uls & Ueq & Uln & Uir & Uia).
-    destruct (version_local_inv_negs _ _ _ _ Hloc) as (Hsk & Hnk).
+    destruct (Hall i v Hi) as ((Hsame & _) & Hunif & Hloc & _).
+    destruct (uniform_inv _ _ _ Hunif) as (Uls & Ueq & Uln & Uir & Uia & Ult & Ule).
+    destruct (version_local_inv_negs _ _ _ _ Hloc) as (Hsk & Hnk & Htk & Hek).
     destruct (head_guard_sound val dflt scc R D Nw c i v Hc Hi) as (_ & Hins & Hguard).
     pose proof (scans_same_sig _ _ Hsame) as Hsig.
     assert (Hvin : In v (c_versions c)) by (eapply nth_error_In; eauto).
-    destruct (Hst v Hvin) as (Hnty & _).
+    destruct (Hst v Hvin) as (Hnty & Hity).
+    assert (Hnil : forall r t, arity r = 0 -> R r t -> t = []).
+    { intros r t Hr Ht. apply R_typed in Ht. rewrite Hr in Ht. destruct t; [reflexivity | discriminate]. }
+    assert (Hnul : forall e, In e (delta_empties v) -> forall t, R (e_rel e) t -> t = []).
+    { intros e He t Ht. exact (Hnil _ t (Hen v e Hvin He) Ht). }
     assert (Ehead : forall asg, head_fact dflt asg (kv asg) v = head_fact dflt asg (kv asg) v0).
     { intros asg. unfold head_fact. rewrite Uir, Uia. reflexivity. }
     assert (Hlow_scan : forall asg s, In s (lower_scans scc v) ->
@@ -1302,37 +1715,62 @@ Section Body.
       assert (Hns' : ~ In (n_rel n) scc) by (intros H; apply memN_In in H; unfold in_scc in Hns; congruence).
       unfold neg_sat. destruct (Hnk n Hn) as [[_ H] | [(_ & H & _) | [Hk _]]]; try tauto.
       rewrite Hk. simpl. rewrite (R_lower _ _ Hns'). tauto. }
+    assert (Hlow_test : forall e, In e (lower_tests scc v) ->
+              (test_sat R D Nw e <-> exists t, L (e_rel e) t)).
+    { intros e He. apply filter_In in He as [He Hns]. apply negb_true_iff in Hns.
+      assert (Hns' : ~ In (e_rel e) scc) by (intros H; apply memN_In in H; unfold in_scc in Hns; congruence).
+      unfold test_sat. destruct (Htk e He) as [Hk | [_ Hk]]; [| tauto].
+      rewrite Hk. simpl. split; intros [t Ht]; exists t; apply (R_lower _ t Hns'); exact Ht. }
+    assert (Hlow_empt : forall e, In e (lower_empties scc v) ->
+              (empt_sat R D Nw e <-> forall t, ~ L (e_rel e) t)).
+    { intros e He. apply filter_In in He as [He Hns]. apply negb_true_iff in Hns.
+      assert (Hns' : ~ In (e_rel e) scc) by (intros H; apply memN_In in H; unfold in_scc in Hns; congruence).
+      unfold empt_sat.
+      destruct (Hek e He) as [[_ H] | [(_ & H & _) | [[Hk _] | (_ & H & _)]]]; try tauto.
+      - rewrite Hk. simpl. split; intros H t Ht; apply (H t); apply (R_lower _ t Hns'); exact Ht.
+      - exfalso. apply Hns'. rewrite H. exact Hins. }
     split.
-    - intros (asg & Hscans & Hsat & Hnegs & Hoth & ->).
-      rewrite Forall_forall in Hscans, Hnegs.
+    - intros (asg & Hscans & Hsat & Hnegs & Hoth & -> & Htests & Hempt).
+      rewrite Forall_forall in Hscans, Hnegs, Htests, Hempt.
       assert (Hty : typed_version arity asg v).
       { split; [| exact Hnty]. intros s Hs. specialize (Hscans s Hs). unfold scan_sat in Hscans.
         destruct (Hsk s Hs) as [Hk | [Hk Hin]]; rewrite Hk in Hscans; simpl in Hscans; auto. }
-      split; [apply Hguard; apply Forall_forall; exact Hnegs|].
-      exists (clause_facts scc c asg). split.
-      + apply (version_ok_sound val dflt scc R D Nw arity c i v asg (kv asg) Hc Hi Hty Hsat D_sub_R).
-        split; apply Forall_forall.
-        * intros s Hs. apply filter_In in Hs as [Hs _]. auto.
-        * intros n Hn. apply filter_In in Hn as [Hn _]. auto.
-      + unfold fire_clause. rewrite Evs. exists asg. rewrite <- Uls, <- Ueq, <- Uln, <- Ehead.
-        split; [| split; [| split; [| split; [| split; [| split]]]]]; auto.
-        * intros s0 Hs0. destruct (same_sig_In _ _ s0 Hsig Hs0) as (s1 & H1 & <- & <-).
-          apply (proj1 Hty). exact H1.
-        * apply Forall_forall. intros s Hs. apply Hlow_scan; auto.
-          apply Hscans. apply filter_In in Hs. tauto.
-        * apply Forall_forall. intros n Hn. apply Hlow_neg; auto.
-          apply Hnegs. apply filter_In in Hn. tauto.
+      split; [apply Hguard; apply Forall_forall; auto|].
+      destruct (proj1 (version_ok_sound val dflt scc R D Nw arity c i v asg (kv asg)
+                         Hc Hi Hty Hsat D_sub_R Hnul)) as [w Hw].
+      { split; [| split].
+        - apply atoms_sat_iff. split; apply Forall_forall.
+          + intros s Hs. apply filter_In in Hs as [Hs _]. auto.
+          + intros e He. apply filter_In in He as [He _]. auto.
+        - apply Forall_forall. intros n Hn. apply filter_In in Hn as [Hn _]. auto.
+        - apply Forall_forall. intros e He. apply filter_In in He as [He _]. auto. }
+      exists (clause_facts scc c asg w). split; [exact Hw|].
+      unfold fire_clause. rewrite Evs. exists asg, w.
+      rewrite <- Uls, <- Ueq, <- Uln, <- Ehead, <- Ult, <- Ule.
+      split; [| split; [| split; [| split; [| split; [| split; [| split; [| split]]]]]]]; auto.
+      * intros s0 Hs0. destruct (same_sig_In _ _ s0 Hsig Hs0) as (s1 & H1 & <- & <-).
+        apply (proj1 Hty). exact H1.
+      * apply Forall_forall. intros s Hs. apply Hlow_scan; auto.
+        apply Hscans. apply filter_In in Hs. tauto.
+      * apply Forall_forall. intros n Hn. apply Hlow_neg; auto.
+        apply Hnegs. apply filter_In in Hn. tauto.
+      * apply Forall_forall. intros e He. apply Hlow_test; auto.
+        apply Htests. apply filter_In in He. tauto.
+      * apply Forall_forall. intros e He. apply Hlow_empt; auto.
+        apply Hempt. apply filter_In in He. tauto.
     - intros (Hnot & ts & Hv & Hfire). unfold fire_clause in Hfire. rewrite Evs in Hfire.
-      destruct Hfire as (asg & Hty0 & Hls & Hsat & Hln & Hoth & -> & ->).
+      destruct Hfire as (asg & w & Hty0 & Hls & Hsat & Hln & Hoth & -> & -> & Hlt & Hle).
       rewrite <- Uls in Hls. rewrite <- Ueq in Hsat. rewrite <- Uln in Hln. rewrite <- Ehead in *.
-      rewrite Forall_forall in Hls, Hln.
+      rewrite <- Ult in Hlt. rewrite <- Ule in Hle.
+      rewrite Forall_forall in Hls, Hln, Hlt, Hle.
       assert (Hty : typed_version arity asg v).
       { split; [| exact Hnty]. intros s Hs.
         destruct (same_sig_In _ _ s (eq_sym Hsig) Hs) as (s0 & H0 & <- & <-). auto. }
       destruct (proj2 (version_ok_sound val dflt scc R D Nw arity c i v asg (kv asg)
-                         Hc Hi Hty Hsat D_sub_R) Hv) as [Hss Hdn].
-      rewrite Forall_forall in Hss, Hdn.
-      exists asg. split; [| split; [| split; [| split]]]; auto.
+                         Hc Hi Hty Hsat D_sub_R Hnul) (ex_intro _ w Hv)) as (Hat & Hdn & Hde).
+      apply atoms_sat_iff in Hat as [Hss Hst'].
+      rewrite Forall_forall in Hss, Hst', Hdn, Hde.
+      exists asg. split; [| split; [| split; [| split; [| split; [| split]]]]]; auto.
       + apply Forall_forall. intros s Hs. destruct (in_scc scc (s_rel s)) eqn:E.
         * apply Hss. apply filter_In. auto.
         * assert (Hl : In s (lower_scans scc v)) by (apply filter_In; rewrite E; auto).
@@ -1348,10 +1786,82 @@ Section Body.
           { apply filter_In. split; auto. apply negb_true_iff.
             destruct (in_scc scc (n_rel n)) eqn:E; auto. apply memN_In in E. tauto. }
           apply Hlow_neg; auto.
+      + apply Forall_forall. intros e He. destruct (in_scc scc (e_rel e)) eqn:E.
+        * apply Hst'. apply filter_In. auto.
+        * assert (Hl : In e (lower_tests scc v)) by (apply filter_In; rewrite E; auto).
+          apply Hlow_test; auto.
+      + apply Forall_forall. intros e He.
+        destruct (Hek e He) as [[Hk Hin] | [(Hk & Hin & Hr & Ha) | [[Hk Hnin] | (Hk & Hr & Ha)]]].
+        * apply Hde. apply filter_In. split; auto. apply kind_eqb_eq. exact Hk.
+        * unfold empt_sat. rewrite Hk, Hr. simpl. intros t Ht. apply Hnot.
+          assert (Har : arity (v_ins_rel v) = 0) by (rewrite <- Hity, Ha; reflexivity).
+          rewrite (Hnil _ t Har Ht) in Ht. unfold head_fact. rewrite Ha. split; simpl; auto.
+        * assert (Hl : In e (lower_empties scc v)).
+          { apply filter_In. split; auto. apply negb_true_iff.
+            destruct (in_scc scc (e_rel e)) eqn:E; auto. apply memN_In in E. tauto. }
+          apply Hlow_empt; auto.
+        * unfold empt_sat. rewrite Hk. simpl. apply HNw; auto.
+  Qed.
+
+  (** The test [IF ISEMPTY(@new_H)] in front of [INSERT () INTO @new_H] does not change what @new
+      holds after the QUERY: when it fails, @new_H already holds the empty tuple, which is all the
+      QUERY could insert.  ([Nw]: @new before the QUERY; emptiness of @new_H is decidable.) *)
+  Theorem self_test_redundant c i v :
+    clause_check scc c = OkResult -> nth_error (c_versions c) i = Some v ->
+    (forall t, Nw (v_ins_rel v) t -> t = []) ->
+    (exists t, Nw (v_ins_rel v) t) \/ (forall t, ~ Nw (v_ins_rel v) t) ->
+    forall f, (Nw (fst f) (snd f) \/ version_emits R D Nw (c_id c) v f) <->
+              (Nw (fst f) (snd f) \/ version_emits R D (fun _ _ => False) (c_id c) v f).
+  Proof.
+    intros Hc Hi Hnn Hdec f.
+    destruct (clause_check_inv scc c Hc) as (v0 & rest & _ & Hall & _).
+    destruct (Hall i v Hi) as (_ & _ & Hloc & _).
+    destruct (version_local_inv_negs _ _ _ _ Hloc) as (Hsk & Hnk & Htk & Hek).
+    assert (Hscan : forall N1 N2 asg s, In s (v_scans v) -> scan_sat R D N1 asg s -> scan_sat R D N2 asg s).
+    { intros N1 N2 asg s Hs. unfold scan_sat. destruct (Hsk s Hs) as [Hk | [Hk _]]; rewrite Hk; auto. }
+    assert (Hneg : forall N1 N2 asg n, In n (v_negs v) ->
+              neg_sat dflt R D N1 asg (kv asg) n -> neg_sat dflt R D N2 asg (kv asg) n).
+    { intros N1 N2 asg n Hn. unfold neg_sat.
+      destruct (Hnk n Hn) as [[Hk _] | [(Hk & _) | [Hk _]]]; rewrite Hk; auto. }
+    assert (Htest : forall N1 N2 e, In e (v_tests v) -> test_sat R D N1 e -> test_sat R D N2 e).
+    { intros N1 N2 e He. unfold test_sat. destruct (Htk e He) as [Hk | [Hk _]]; rewrite Hk; auto. }
+    split; (intros [Hn | (asg & H1 & H2 & H3 & H4 & H5 & H6 & H7)]; [left; exact Hn|]);
+      rewrite Forall_forall in H1, H3, H6, H7.
+    - right. exists asg. split; [| split; [| split; [| split; [| split; [| split]]]]]; auto;
+        apply Forall_forall.
+      + intros s Hs. eapply Hscan; eauto.
+      + intros n Hn. eapply Hneg; eauto.
+      + intros e He. eapply Htest; eauto.
+      + intros e He. specialize (H7 e He). unfold empt_sat in *.
+        destruct (Hek e He) as [[Hk _] | [(Hk & _) | [[Hk _] | (Hk & _)]]]; rewrite Hk in *; auto.
+    - destruct Hdec as [[t Ht] | Hemp].
+      + destruct (existsb (fun e => kind_eqb (e_kind e) KNew) (v_empties v)) eqn:Ex.
+        * apply existsb_exists in Ex as (e & He & Hk). apply kind_eqb_eq in Hk.
+          destruct (Hek e He) as [[Hk' _] | [(Hk' & _) | [[Hk' _] | (_ & _ & Ha)]]]; try congruence.
+          left. rewrite H5. unfold head_fact. rewrite Ha. simpl.
+          rewrite (Hnn t Ht) in Ht. exact Ht.
+        * right. exists asg. split; [| split; [| split; [| split; [| split; [| split]]]]]; auto;
+            apply Forall_forall.
+          -- intros s Hs. eapply Hscan; eauto.
+          -- intros n Hn. eapply Hneg; eauto.
+          -- intros e He. eapply Htest; eauto.
+          -- intros e He. specialize (H7 e He). unfold empt_sat in *.
+             destruct (e_kind e) eqn:Hk; auto. exfalso.
+             assert (existsb (fun e => kind_eqb (e_kind e) KNew) (v_empties v) = true); [| congruence].
+             apply existsb_exists. exists e. rewrite Hk. auto.
+      + right. exists asg. split; [| split; [| split; [| split; [| split; [| split]]]]]; auto;
+          apply Forall_forall.
+        * intros s Hs. eapply Hscan; eauto.
+        * intros n Hn. eapply Hneg; eauto.
+        * intros e He. eapply Htest; eauto.
+        * intros e He. specialize (H7 e He). unfold empt_sat in *.
+          destruct (Hek e He) as [[Hk _] | [(Hk & _) | [[Hk _] | (Hk & Hr & _)]]]; rewrite Hk in *; auto.
+          simpl. rewrite Hr. exact Hemp.
   Qed.
 End Body.
 
 Arguments static_typed arity c : clear implicits.
+Arguments empties_nullary arity c : clear implicits.
 Arguments version_emits {val}.
 Arguments fire_clause {val}.
 
@@ -1366,14 +1876,18 @@ Section Emitted.
   Variable s : stratum.
   Hypothesis check_ok : stratum_check s = OkResult.
   Hypothesis typed_ok : forall c, In c (st_clauses s) -> static_typed arity c.
+  (** the relations with the arity-0 copy statements ([INSERT () INTO r]) have arity 0 (RAM is typed) *)
+  Hypothesis nullary_ok : forall r, In r (st_nullary s) -> arity r = 0.
 
   Notation scc := (st_scc s).
+  Notation nul := (st_nullary s).
   Notation fireC := (fire_clause dflt scc arity kv others_sat L).
 
   (** the rules of the abstract scheme are the clauses; a clause has as many SCC atoms as versions *)
   Definition clause_arity (c : clause) : nat := length (c_versions c).
 
-  (** what the QUERYs of the loop body insert into the @new relations *)
+  (** what the QUERYs of the loop body insert into the @new relations (every QUERY taken on empty
+      @new relations: see [self_test_redundant]) *)
   Definition body_emitted (R D : rel_interp val) : rel_interp val := fun r t =>
     exists c i v, In c (st_clauses s) /\ nth_error (c_versions c) i = Some v /\
                   version_emits dflt kv others_sat R D (fun _ _ => False) (c_id c) v (r, t).
@@ -1386,30 +1900,44 @@ Section Emitted.
     (forall r t, ~ In r scc -> (stR st r t <-> L r t)).
 
   Lemma stratum_check_inv :
-    frame_check s = OkResult /\ forall c, In c (st_clauses s) -> clause_check scc c = OkResult.
+    frame_check s = OkResult /\
+    (forall c, In c (st_clauses s) -> clause_check scc c = OkResult) /\
+    (forall c v e, In c (st_clauses s) -> In v (c_versions c) -> In e (delta_empties v) ->
+                   In (e_rel e) nul).
   Proof.
-    unfold stratum_check in check_ok. apply andr_ok in check_ok as [H1 H2]. split; auto.
-    intros c Hc. apply In_nth_error in Hc as [j Hj]. exact (check_all_ok _ _ _ H2 j c Hj).
+    unfold stratum_check in check_ok. apply andr_ok in check_ok as [H12 H3].
+    apply andr_ok in H12 as [H1 H2]. split; auto. split.
+    - intros c Hc. apply In_nth_error in Hc as [j Hj]. exact (check_all_ok _ _ _ H2 j c Hj).
+    - intros c v e Hc Hv He. apply In_nth_error in Hc as [j Hj]. apply In_nth_error in Hv as [k Hk].
+      pose proof (check_all_ok _ _ _ H3 j c Hj) as A. unfold nullary_check in A.
+      pose proof (check_all_ok _ _ _ A k v Hk) as B. apply guard_ok in B.
+      rewrite forallb_forall in B. apply memN_In. exact (B e He).
+  Qed.
+
+  Lemma emitted_empties_nullary c : In c (st_clauses s) -> empties_nullary arity c.
+  Proof.
+    intros Hc v e Hv He. destruct stratum_check_inv as (_ & _ & Hn).
+    apply nullary_ok. exact (Hn c v e Hc Hv He).
   Qed.
 
   Lemma fire_clause_length c ts h : fireC c ts h -> length ts = clause_arity c.
   Proof.
     unfold fire_clause, clause_arity. destruct (c_versions c) as [|v0 rest] eqn:E; [tauto|].
-    intros (asg & _ & _ & _ & _ & _ & -> & _). rewrite clause_facts_length, E. reflexivity.
+    intros (asg & w & _ & _ & _ & _ & _ & -> & _). rewrite clause_facts_length, E. reflexivity.
   Qed.
 
   Lemma fire_clause_head_typed c ts h :
     In c (st_clauses s) -> fireC c ts h -> length (snd h) = arity (fst h).
   Proof.
     intros Hc. unfold fire_clause. destruct (c_versions c) as [|v0 rest] eqn:E; [tauto|].
-    intros (asg & _ & _ & _ & _ & _ & _ & ->). simpl. rewrite map_length.
+    intros (asg & w & _ & _ & _ & _ & _ & _ & -> & _). simpl. rewrite map_length.
     apply (typed_ok c Hc v0). rewrite E. simpl; auto.
   Qed.
 
   (** every clause has at least one SCC atom: the premise of [arity_pos_preamble_closed] *)
   Lemma emitted_arity_pos c : In c (st_clauses s) -> 0 < clause_arity c.
   Proof.
-    intros Hc. destruct stratum_check_inv as [_ Hcl].
+    intros Hc. destruct stratum_check_inv as (_ & Hcl & _).
     destruct (clause_check_inv scc c (Hcl c Hc)) as (v0 & rest & E & _).
     unfold clause_arity. rewrite E. simpl. lia.
   Qed.
@@ -1419,10 +1947,15 @@ Section Emitted.
     fset_of scc (body_emitted (stR st) (stD st)) f <->
     New (st_clauses s) clause_arity fireC (fset_of scc (stR st)) (fset_of scc (stD st)) f.
   Proof.
-    intros (G1 & G2 & G3) [r t]. destruct stratum_check_inv as [_ Hcl]. split.
+    intros (G1 & G2 & G3) [r t]. destruct stratum_check_inv as (_ & Hcl & _).
+    assert (HNw : forall (v : version) e, In e (v_empties v) -> e_kind e = KNew ->
+                    forall t0 : tuple val, ~ (fun (_ : N) (_ : tuple val) => False) (e_rel e) t0)
+      by (intros; tauto).
+    split.
     - intros [_ (c & i & v & Hc & Hi & Hem)].
       apply (version_emits_iff val dflt scc arity kv others_sat L (stR st) (stD st) (fun _ _ => False)
-               G1 G2 G3 c i v (r, t) (Hcl c Hc) Hi (typed_ok c Hc)) in Hem as [Hnot (ts & Hv & Hf)].
+               G1 G2 G3 c i v (r, t) (Hcl c Hc) Hi (typed_ok c Hc) (emitted_empties_nullary c Hc) (HNw v))
+        in Hem as [Hnot (ts & Hv & Hf)].
       split; auto. exists c, ts, i. pose proof (fire_clause_length c ts (r, t) Hf) as Hlen.
       split; [exact Hc|]. split; [exact Hlen|]. split; [| split; [exact Hv | exact Hf]].
       rewrite Hlen. apply nth_error_Some. unfold clause_arity. congruence.
@@ -1431,19 +1964,31 @@ Section Emitted.
       destruct (nth_error (c_versions c) i) as [v|] eqn:Hi; [| apply nth_error_None in Hi; lia].
       assert (Hem : version_emits dflt kv others_sat (stR st) (stD st) (fun _ _ => False) (c_id c) v (r, t)).
       { apply (version_emits_iff val dflt scc arity kv others_sat L (stR st) (stD st) (fun _ _ => False)
-                 G1 G2 G3 c i v (r, t) (Hcl c Hc) Hi (typed_ok c Hc)). split; eauto. }
+                 G1 G2 G3 c i v (r, t) (Hcl c Hc) Hi (typed_ok c Hc) (emitted_empties_nullary c Hc) (HNw v)).
+        split; eauto. }
       split.
-      + destruct Hem as (asg & _ & _ & _ & _ & E). inversion E; subst. simpl.
+      + destruct Hem as (asg & _ & _ & _ & _ & E & _). inversion E; subst. simpl.
         apply (head_guard_sound val dflt scc (stR st) (stD st) (fun _ _ => False) c i v (Hcl c Hc) Hi).
       + exists c, i, v. auto.
   Qed.
 
+  (** the QUERYs insert only the empty tuple into the relations of arity 0 *)
+  Lemma body_emitted_nullary (R D : rel_interp val) r t :
+    In r nul -> body_emitted R D r t -> t = [].
+  Proof.
+    intros Hr (c & i & v & Hc & Hi & asg & _ & _ & _ & _ & E & _).
+    unfold head_fact in E. inversion E; subst.
+    assert (Hv : In v (c_versions c)) by (eapply nth_error_In; eauto).
+    destruct (typed_ok c Hc v Hv) as [_ Hl]. rewrite (nullary_ok _ Hr) in Hl.
+    destruct (v_ins_args v); [reflexivity | discriminate].
+  Qed.
+
   Lemma good_step (st : state val) :
     good st -> (forall f, ~ fset_of scc (stN st) f) ->
-    good (run_updates (st_update s) (run_body val body_emitted st)).
+    good (run_updates nul (st_update s) (run_body val body_emitted st)).
   Proof.
     intros Hg Hempty. pose proof Hg as (G1 & G2 & G3).
-    destruct stratum_check_inv as [Hfr _].
+    destruct stratum_check_inv as (Hfr & _).
     assert (Hnew : forall f,
               fset_of scc (stN (run_body val body_emitted st)) f <->
               New (st_clauses s) clause_arity fireC
@@ -1451,8 +1996,12 @@ Section Emitted.
                   (fset_of scc (stD (run_body val body_emitted st))) f).
     { intros f. unfold run_body. simpl. rewrite <- (emitted_body_is_New st Hg).
       pose proof (Hempty f) as He. unfold fset_of in *. simpl. tauto. }
+    assert (Hnn : new_nullary nul (run_body val body_emitted st)).
+    { destruct (frame_check_inv s Hfr) as (_ & _ & _ & _ & _ & _ & Hsub).
+      intros r t Hin [Hn | Hb]; [| exact (body_emitted_nullary _ _ r t Hin Hb)].
+      exfalso. apply (Hempty (r, t)). split; simpl; auto. }
     destruct (frame_step_sound val clause (st_clauses s) clause_arity fireC s Hfr
-                (run_body val body_emitted st) Hnew) as (_ & E2 & E3 & _ & E5).
+                (run_body val body_emitted st) Hnn Hnew) as (_ & E2 & E3 & _ & E5).
     simpl in E2, E3, E5.
     assert (Hnew_typed : forall r t,
               New (st_clauses s) clause_arity fireC (fset_of scc (stR st)) (fset_of scc (stD st)) (r, t) ->
@@ -1476,9 +2025,10 @@ Section Emitted.
                           (fset_of scc (stR st)) (fset_of scc (stD st)) res' /\
                  forall f, res' f <-> fset_of scc res f.
   Proof.
-    destruct stratum_check_inv as [Hfr _].
+    destruct stratum_check_inv as (Hfr & _).
     apply (frame_loop_sound val clause (st_clauses s) clause_arity fireC s Hfr body_emitted good).
     - intros st0 Hg f. apply emitted_body_is_New. exact Hg.
+    - intros st0 _ r t Hin Hb. exact (body_emitted_nullary _ _ r t Hin Hb).
     - exact good_step.
   Qed.
 
@@ -1488,16 +2038,20 @@ Section Emitted.
     (forall r t, stR st r t -> length t = arity r) ->
     (forall r t, ~ In r scc -> (stR st r t <-> L r t)) ->
     (forall r t, In r scc -> ~ stD st r t) -> (forall r t, In r scc -> ~ stN st r t) ->
-    ram_loop val s body_emitted (run_preamble (st_preamble s) st) res ->
+    ram_loop val s body_emitted (run_preamble nul (st_preamble s) st) res ->
     exists res', loop_run (st_clauses s) clause_arity fireC (limit_hit_of val s)
                           (fset_of scc (stR st)) (fset_of scc (stR st)) res' /\
                  forall f, res' f <-> fset_of scc res f.
   Proof.
-    intros H1 H3 HD HN Hrun. destruct stratum_check_inv as [Hfr _].
-    pose proof (frame_preamble_sound val s Hfr st HD) as Hpre.
+    intros H1 H3 HD HN Hrun. destruct stratum_check_inv as (Hfr & _).
+    assert (Hnil : forall r t, In r nul -> stR st r t -> t = []).
+    { intros r t Hr Ht. apply H1 in Ht. rewrite (nullary_ok r Hr) in Ht.
+      destruct t; [reflexivity | discriminate]. }
+    pose proof (frame_preamble_sound val s Hfr st HD Hnil) as Hpre.
     destruct (emitted_loop_sound _ _ Hrun) as (res' & Hl & Hres).
-    - split; [exact H1 | split; [| exact H3]]. simpl. intros r t Hin [Hd | [_ H]]; auto.
-      exfalso. exact (HD r t Hin Hd).
+    - split; [exact H1 | split; [| exact H3]]. simpl. intros r t Hin [Hd | [_ H]].
+      + exfalso. exact (HD r t Hin Hd).
+      + apply (copied_iff val nul r (stR st) t (fun Hr t' => Hnil r t' Hr)). exact H.
     - intros [r t] [Hr Hn]. simpl in *. exact (HN r t Hr Hn).
     - simpl in Hl.
       destruct (loop_run_ext _ _ (st_clauses s) clause_arity fireC (limit_hit_of val s)
@@ -1513,14 +2067,37 @@ Theorem stratum_version_sound (val : Type) (dflt : val) (s : stratum) (R D Nw : 
   stratum_check s = OkResult -> In c (st_clauses s) -> nth_error (c_versions c) i = Some v ->
   typed_version arity asg v -> sat_eqs dflt asg kenv (v_eqs v) ->
   (forall r t, In r (st_scc s) -> D r t -> R r t) ->
-  i < length (clause_facts (st_scc s) c asg) /\
+  (forall r t, In r (st_nullary s) -> R r t -> t = []) ->
+  (forall w, i < length (clause_facts (st_scc s) c asg w)) /\
+  ((Forall (atom_sat R D Nw asg) (scc_atoms (st_scc s) v) /\
+    Forall (neg_sat dflt R D Nw asg kenv) (delta_negs v) /\
+    Forall (empt_sat R D Nw) (delta_empties v)) <->
+   exists w, version_ok (fset_of (st_scc s) R) (fset_of (st_scc s) D) i (clause_facts (st_scc s) c asg w)).
+Proof.
+  intros Hs Hc Hi Hty Hsat HDR Hnul. destruct (stratum_check_inv s Hs) as (_ & Hcl & Hn). split.
+  - intros w. rewrite clause_facts_length. apply nth_error_Some. congruence.
+  - apply (version_ok_sound val dflt (st_scc s) R D Nw arity c i v asg kenv (Hcl c Hc) Hi Hty Hsat HDR).
+    intros e He t Ht. apply (Hnul (e_rel e) t); auto.
+    apply (Hn c v e Hc); auto. eapply nth_error_In; eauto.
+Qed.
+
+(** the same for a version whose SCC atoms all have scans: the statement about the scans alone *)
+Theorem stratum_version_sound_scans (val : Type) (dflt : val) (s : stratum) (R D Nw : rel_interp val)
+        (arity : N -> nat) (c : clause) (i : nat) (v : version) (asg : N -> tuple val) (kenv : N -> val)
+        (w : nat -> tuple val) :
+  stratum_check s = OkResult -> In c (st_clauses s) -> nth_error (c_versions c) i = Some v ->
+  scc_tests (st_scc s) v = [] ->
+  typed_version arity asg v -> sat_eqs dflt asg kenv (v_eqs v) ->
+  (forall r t, In r (st_scc s) -> D r t -> R r t) ->
+  i < length (clause_facts (st_scc s) c asg w) /\
   ((Forall (scan_sat R D Nw asg) (scc_scans (st_scc s) v) /\
     Forall (neg_sat dflt R D Nw asg kenv) (delta_negs v)) <->
-   version_ok (fset_of (st_scc s) R) (fset_of (st_scc s) D) i (clause_facts (st_scc s) c asg)).
+   version_ok (fset_of (st_scc s) R) (fset_of (st_scc s) D) i (clause_facts (st_scc s) c asg w)).
 Proof.
-  intros Hs Hc Hi Hty Hsat HDR. destruct (stratum_check_inv s Hs) as [_ Hcl]. split.
+  intros Hs Hc Hi Hno Hty Hsat HDR. destruct (stratum_check_inv s Hs) as (_ & Hcl & _). split.
   - rewrite clause_facts_length. apply nth_error_Some. congruence.
-  - exact (version_ok_sound val dflt (st_scc s) R D Nw arity c i v asg kenv (Hcl c Hc) Hi Hty Hsat HDR).
+  - exact (version_ok_sound_scans val dflt (st_scc s) R D Nw arity c i v asg kenv w
+             (Hcl c Hc) Hi Hno Hty Hsat HDR).
 Qed.
 
 Theorem stratum_head_guard_sound (val : Type) (dflt : val) (s : stratum) (R D Nw : rel_interp val)
@@ -1528,9 +2105,10 @@ Theorem stratum_head_guard_sound (val : Type) (dflt : val) (s : stratum) (R D Nw
   stratum_check s = OkResult -> In c (st_clauses s) -> nth_error (c_versions c) i = Some v ->
   v_ins_kind v = KNew /\ In (v_ins_rel v) (st_scc s) /\
   forall asg kenv, Forall (neg_sat dflt R D Nw asg kenv) (v_negs v) ->
+                   Forall (empt_sat R D Nw) (v_empties v) ->
                    ~ fset_of (st_scc s) R (head_fact dflt asg kenv v).
 Proof.
-  intros Hs Hc Hi. destruct (stratum_check_inv s Hs) as [_ Hcl].
+  intros Hs Hc Hi. destruct (stratum_check_inv s Hs) as (_ & Hcl & _).
   exact (head_guard_sound val dflt (st_scc s) R D Nw c i v (Hcl c Hc) Hi).
 Qed.
 
@@ -1538,17 +2116,20 @@ Theorem frame_ok_sound (val rule : Type) (rules : list rule) (arity : rule -> na
         (fire : rule -> list (fact val) -> fact val -> Prop) (s : stratum) :
   stratum_check s = OkResult ->
   let scc := st_scc s in
+  let nul := st_nullary s in
   let NewF := New rules arity fire in
   (* preamble: @delta = main relation, for the relations of the SCC *)
   (forall st : state val, (forall r t, In r scc -> ~ stD st r t) ->
-     forall f, fset_of scc (stD (run_preamble (st_preamble s) st)) f <-> fset_of scc (stR st) f) /\
+     (forall r t, In r nul -> stR st r t -> t = []) ->
+     forall f, fset_of scc (stD (run_preamble nul (st_preamble s) st)) f <-> fset_of scc (stR st) f) /\
   (* the size-limit exits are [limit_hit_of] on the SCC facts of the main relations *)
   (forall st : state val, limits_hit (st_limits s) st <-> limit_hit_of val s (fset_of scc (stR st))) /\
   (* one pass: emptiness exit and table updates against the abstract step *)
   (forall st : state val,
      let Rf := fset_of scc (stR st) in
      let Df := fset_of scc (stD st) in
-     let st' := run_updates (st_update s) st in
+     let st' := run_updates nul (st_update s) st in
+     new_nullary nul st ->
      (forall f, fset_of scc (stN st) f <-> NewF Rf Df f) ->
      (exit_cond (st_exit s) st <-> (forall h, ~ NewF Rf Df h)) /\
      (forall f, fset_of scc (stR st') f <-> (Rf f \/ NewF Rf Df f)) /\
@@ -1560,14 +2141,15 @@ Theorem frame_ok_sound (val rule : Type) (rules : list rule) (arity : rule -> na
   (forall (body : rel_interp val -> rel_interp val -> rel_interp val) (Good : state val -> Prop),
      (forall st, Good st -> forall f,
         fset_of scc (body (stR st) (stD st)) f <-> NewF (fset_of scc (stR st)) (fset_of scc (stD st)) f) ->
+     (forall st, Good st -> forall r t, In r nul -> body (stR st) (stD st) r t -> t = []) ->
      (forall st, Good st -> (forall f, ~ fset_of scc (stN st) f) ->
-        Good (run_updates (st_update s) (run_body val body st))) ->
+        Good (run_updates nul (st_update s) (run_body val body st))) ->
      forall st res, ram_loop val s body st res -> Good st -> (forall f, ~ fset_of scc (stN st) f) ->
      exists res', loop_run rules arity fire (limit_hit_of val s)
                            (fset_of scc (stR st)) (fset_of scc (stD st)) res' /\
                   forall f, res' f <-> fset_of scc res f).
 Proof.
-  intros Hs scc NewF. destruct (stratum_check_inv s Hs) as [Hfr _].
+  intros Hs scc nul NewF. destruct (stratum_check_inv s Hs) as (Hfr & _).
   split; [exact (frame_preamble_sound val s Hfr)|].
   split; [exact (frame_limits_sound val s Hfr)|].
   split; [exact (frame_step_sound val rule rules arity fire s Hfr)|].
@@ -1703,14 +2285,16 @@ Section Examples.
   Let exR : rel_interp N := fun r t => (r = 0 /\ t = [1; 2]) \/ (r = 1 /\ t = [2; 3]).
   Let exD : rel_interp N := fun r t => r = 0 /\ t = [1; 2].
   Let ex_asg : N -> tuple N := fun t => if N.eqb t 0 then [1; 2] else [2; 3].
+  Let ex_w : nat -> tuple N := fun _ => [].
 
   Example version_ok_sound_instance :
     version_ok (fset_of [0; 1] exR) (fset_of [0; 1] exD) 0
-               (clause_facts [0; 1] (mkClause 0 [ex_v00; ex_v01]) ex_asg).
+               (clause_facts [0; 1] (mkClause 0 [ex_v00; ex_v01]) ex_asg ex_w).
   Proof.
-    refine (proj1 (version_ok_sound N 0 [0; 1] exR exD (fun _ _ => False) (fun _ => 2%nat)
-                     (mkClause 0 [ex_v00; ex_v01]) 0 ex_v00 ex_asg (fun _ => 0) _ _ _ _ _) _).
+    refine (proj1 (version_ok_sound_scans N 0 [0; 1] exR exD (fun _ _ => False) (fun _ => 2%nat)
+                     (mkClause 0 [ex_v00; ex_v01]) 0 ex_v00 ex_asg (fun _ => 0) ex_w _ _ _ _ _ _) _).
     - vm_compute. reflexivity.
+    - reflexivity.
     - reflexivity.
     - split.
       + intros s [<- | [<- | []]]; reflexivity.
@@ -1729,16 +2313,17 @@ Section Examples.
   Proof.
     apply (proj2 (proj2 (head_guard_sound N 0 [0; 1] exR exD (fun _ _ => False)
                            (mkClause 0 [ex_v00; ex_v01]) 0%nat ex_v00 eq_refl eq_refl))).
-    constructor; [| constructor; [| constructor]].
-    - intros [H _]. discriminate.
-    - intros [[_ H] | [H _]]; discriminate.
+    - constructor; [| constructor; [| constructor]].
+      + intros [H _]. discriminate.
+      + intros [[_ H] | [H _]]; discriminate.
+    - constructor.
   Qed.
 
   Example frame_check_instance : frame_check ex_pq = OkResult.
   Proof. vm_compute. reflexivity. Qed.
 
   Example version_ok_sound_instance_facts :
-    clause_facts [0; 1] (mkClause 0 [ex_v00; ex_v01]) ex_asg = [(0, [1; 2]); (1, [2; 3])].
+    clause_facts [0; 1] (mkClause 0 [ex_v00; ex_v01]) ex_asg ex_w = [(0, [1; 2]); (1, [2; 3])].
   Proof. reflexivity. Qed.
 
   (** An instance of the hypotheses of [emitted_stratum_sound] for [ex_pq]: e = {(1,2)}, p and q
@@ -1759,13 +2344,15 @@ Section Examples.
       destruct Hc as [<- | [<- | []]]; simpl in Hv; destruct Hv as [<- | [<- | []]];
         (split; [| reflexivity]); intros n Hn; simpl in Hn;
         repeat (destruct Hn as [<- | Hn]; [reflexivity|]); destruct Hn.
+    - intros r [].
     - intros r t [_ ->]. reflexivity.
     - intros r t _. tauto.
     - intros r t _ [].
     - intros r t _ [].
-    - refine (rl_exit_empty N ex_pq _ (run_preamble (st_preamble ex_pq) ex_st0) _).
+    - refine (rl_exit_empty N ex_pq _ (run_preamble [] (st_preamble ex_pq) ex_st0) _).
       intros r _ t [[] | (c & i & v & Hc & Hi & asg & Hsc & _)].
-      assert (Hp : forall k, ~ scan_sat (stR (run_preamble [0; 1] ex_st0)) (stD (run_preamble [0; 1] ex_st0))
+      assert (Hp : forall k, ~ scan_sat (stR (run_preamble [] [0; 1] ex_st0))
+                                 (stD (run_preamble [] [0; 1] ex_st0))
                                  (fun _ _ => False) asg (mkScan 0 0 k)).
       { intros k H. destruct k; simpl in H.
         - destruct H as [H _]. discriminate.
@@ -1774,6 +2361,207 @@ Section Examples.
       simpl in Hc. destruct Hc as [<- | [<- | []]]; simpl in Hi;
         (destruct i as [|[|i]]; simpl in Hi; [| | destruct i; discriminate]);
         inversion Hi; subst v; inversion Hsc as [|? ? H0 _]; exact (Hp _ H0).
+  Qed.
+
+  (** *** Atoms without a scan and heads without arguments.
+      Relations B = 0, P = 1, +disconnected0 = 2, T = 3 (P and +disconnected0 of arity 0).  The loop body
+      that [--show=initial-ram] prints for
+<<
+      T(x,recursive_iteration_cnt()) :- B(x), P(), +disconnected0(), recursive_iteration_cnt() < 12.
+      P() :- B(2).
+>>
+      (all four relations in one SCC; +disconnected0 stands for an atom with only unnamed arguments):
+<<
+      v0: IF (NOT ISEMPTY(P)) IF (NOT ISEMPTY(+disconnected0)) FOR t2 IN @delta_B IF (NOT ISEMPTY(@delta_B))
+            IF ISEMPTY(@delta_+disconnected0) IF ISEMPTY(@delta_P) IF (NOT (t2.0,cnt) IN T) IF (cnt < 12)
+            INSERT (t2.0, cnt) INTO @new_T
+      v1: IF (NOT ISEMPTY(@delta_P)) IF (NOT ISEMPTY(+disconnected0)) FOR t2 IN B IF (NOT ISEMPTY(B))
+            IF ISEMPTY(@delta_+disconnected0) IF (NOT (t2.0,cnt) IN T) IF (cnt < 12) INSERT ..
+      v2: IF (NOT ISEMPTY(P)) IF (NOT ISEMPTY(@delta_+disconnected0)) FOR t2 IN B IF (NOT ISEMPTY(B))
+            IF (NOT (t2.0,cnt) IN T) IF (cnt < 12) INSERT ..
+      P:  IF ISEMPTY(P) FOR t0 IN @delta_B IF (NOT ISEMPTY(@new_P)) BREAK IF (NOT ISEMPTY(@delta_B))
+            IF (t0.0 = 2) IF ISEMPTY(@new_P) INSERT () INTO @new_P
+>> *)
+  Let gT := mkNeg 3 KMain [e 2 0; EOther 0].
+  Definition ex_n0 := mkVersionX [mkScan 2 0 KDelta] [] [gT] 2 3 KNew [e 2 0; EOther 0]
+                        [mkTest 1 KMain; mkTest 2 KMain] [mkTest 2 KDelta; mkTest 1 KDelta] [].
+  Definition ex_n1 := mkVersionX [mkScan 2 0 KMain] [] [gT] 2 3 KNew [e 2 0; EOther 0]
+                        [mkTest 1 KDelta; mkTest 2 KMain] [mkTest 2 KDelta] [].
+  Definition ex_n2 := mkVersionX [mkScan 2 0 KMain] [] [gT] 2 3 KNew [e 2 0; EOther 0]
+                        [mkTest 1 KMain; mkTest 2 KDelta] [] [].
+  Definition ex_nP := mkVersionX [mkScan 0 0 KDelta] [(e 0 0, EOther 1)] [] 1 1 KNew []
+                        [] [mkTest 1 KMain; mkTest 1 KNew] [mkTest 1 KNew].
+  Definition ex_nframe (cs : list clause) : stratum :=
+    mkStratumX [0; 1; 2; 3] [0; 1; 2; 3] [0; 1; 2; 3] []
+               [mkUpdate 0 true true true; mkUpdate 1 true true true; mkUpdate 2 true true true;
+                mkUpdate 3 true true true] cs [1; 2].
+  Definition ex_np := ex_nframe [mkClause 0 [ex_n0; ex_n1; ex_n2]; mkClause 1 [ex_nP]].
+
+  Example ex_np_accepted : stratum_check ex_np = OkResult.
+  Proof. vm_compute. reflexivity. Qed.
+
+  (** the SCC atoms of the first clause are B (scanned), P, +disconnected0; the versions have their
+      delta on B, P, +disconnected0 in this order *)
+  Example ex_np_perm : clause_perm [0; 1; 2; 3] (mkClause 0 [ex_n0; ex_n1; ex_n2]) = [0; 1; 2]%nat.
+  Proof. vm_compute. reflexivity. Qed.
+
+  (** defect 1: version 0 tests [IF (NOT ISEMPTY(@delta_P))] where the negated delta
+      [IF ISEMPTY(@delta_P)] belongs (combinations of a new B tuple with the old P are lost) *)
+  Example ex_np_negated_delta_defect_rejected :
+    stratum_check (ex_nframe [mkClause 0 [mkVersionX [mkScan 2 0 KDelta] [] [gT] 2 3 KNew [e 2 0; EOther 0]
+                                            [mkTest 1 KMain; mkTest 2 KMain; mkTest 1 KDelta]
+                                            [mkTest 2 KDelta] [];
+                                          ex_n1; ex_n2];
+                              mkClause 1 [ex_nP]])
+    = Reject (RScanMismatch 0 1).
+  Proof. vm_compute. reflexivity. Qed.
+
+  (** the same defect, had the translator dropped the wrong test instead of listing it: the negated
+      delta for P is missing *)
+  Example ex_np_negated_delta_missing_rejected :
+    stratum_check (ex_nframe [mkClause 0 [mkVersionX [mkScan 2 0 KDelta] [] [gT] 2 3 KNew [e 2 0; EOther 0]
+                                            [mkTest 1 KMain; mkTest 2 KMain] [mkTest 2 KDelta] [];
+                                          ex_n1; ex_n2];
+                              mkClause 1 [ex_nP]])
+    = Reject (RMissingNegDelta 0 0 1).
+  Proof. vm_compute. reflexivity. Qed.
+
+  (** defect 2: the existence test of the atom without a scan reads the full relation in every
+      version (the combination fires again in later rounds): version 1 has no delta *)
+  Example ex_np_full_relation_defect_rejected :
+    stratum_check (ex_nframe [mkClause 0 [ex_n0;
+                                          mkVersionX [mkScan 2 0 KMain] [] [gT] 2 3 KNew [e 2 0; EOther 0]
+                                            [mkTest 1 KMain; mkTest 2 KMain] [mkTest 2 KDelta] [];
+                                          mkVersionX [mkScan 2 0 KMain] [] [gT] 2 3 KNew [e 2 0; EOther 0]
+                                            [mkTest 1 KMain; mkTest 2 KMain] [] []];
+                              mkClause 1 [ex_nP]])
+    = Reject (RDeltaPosition 0 1).
+  Proof. vm_compute. reflexivity. Qed.
+
+  (** further mutations: the guard [ISEMPTY(P)] of the head without arguments is missing; the test in
+      front of the insertion reads another relation; [ISEMPTY(@delta_T)] for a relation that does not
+      have the arity-0 copy statements *)
+  Example ex_np_no_guard0_rejected :
+    stratum_check (ex_nframe [mkClause 1 [mkVersionX [mkScan 0 0 KDelta] [(e 0 0, EOther 1)] [] 1 1 KNew []
+                                            [] [mkTest 1 KNew] [mkTest 1 KNew]]])
+    = Reject (RGuard 1 0).
+  Proof. vm_compute. reflexivity. Qed.
+
+  Example ex_np_foreign_new_test_rejected :
+    stratum_check (ex_nframe [mkClause 1 [mkVersionX [mkScan 0 0 KDelta] [(e 0 0, EOther 1)] [] 1 1 KNew []
+                                            [] [mkTest 1 KMain; mkTest 2 KNew] []]])
+    = Reject (RUnsupported UEmptyKind 1 0).
+  Proof. vm_compute. reflexivity. Qed.
+
+  Example ex_np_wide_rejected :
+    stratum_check (mkStratumX [0; 1; 2; 3] [0; 1; 2; 3] [0; 1; 2; 3] []
+                     [mkUpdate 0 true true true; mkUpdate 1 true true true; mkUpdate 2 true true true;
+                      mkUpdate 3 true true true]
+                     [mkClause 0 [ex_n0; ex_n1; ex_n2]] [1])
+    = Reject (RUnsupported UWide 0 0).
+  Proof. vm_compute. reflexivity. Qed.
+
+  (** An instance of the hypotheses of [version_ok_sound] with atoms without a scan: version 0 of the
+      first clause with B = {(5)} = @delta_B, P = {()}, +disconnected0 = {()}, the deltas of P and
+      +disconnected0 empty, t2 = (5). *)
+  Let exR1 : rel_interp N := fun r t => (r = 0 /\ t = [5]) \/ ((r = 1 \/ r = 2) /\ t = []).
+  Let exD1 : rel_interp N := fun r t => r = 0 /\ t = [5].
+  Let ex_ar1 : N -> nat := fun r => if N.eqb r 0 then 1%nat else if N.eqb r 3 then 2%nat else 0%nat.
+
+  Example version_ok_sound_instance_tests :
+    exists w, version_ok (fset_of [0; 1; 2; 3] exR1) (fset_of [0; 1; 2; 3] exD1) 0
+                         (clause_facts [0; 1; 2; 3] (mkClause 0 [ex_n0; ex_n1; ex_n2]) (fun _ => [5]) w).
+  Proof.
+    refine (proj1 (version_ok_sound N 0 [0; 1; 2; 3] exR1 exD1 (fun _ _ => False) ex_ar1
+                     (mkClause 0 [ex_n0; ex_n1; ex_n2]) 0 ex_n0 (fun _ => [5]) (fun _ => 0) _ _ _ _ _ _) _).
+    - vm_compute. reflexivity.
+    - reflexivity.
+    - split.
+      + intros s [<- | []]. reflexivity.
+      + intros n [<- | []]. reflexivity.
+    - constructor.
+    - intros r t _ [-> ->]. left. auto.
+    - intros x [<- | [<- | []]] t [[H _] | [_ H]]; simpl in H; try discriminate; exact H.
+    - split; [| split].
+      + constructor; [split; reflexivity|].
+        constructor; [exists []; right; auto|]. constructor; [exists []; right; auto | constructor].
+      + constructor.
+      + constructor; [| constructor; [| constructor]]; intros t [H _]; discriminate.
+  Qed.
+
+  Example version_ok_sound_instance_tests_facts :
+    clause_facts [0; 1; 2; 3] (mkClause 0 [ex_n0; ex_n1; ex_n2]) (fun _ => [5]) (fun _ => [])
+    = [(0, [5]); (1, []); (2, [])].
+  Proof. reflexivity. Qed.
+
+  (** the guard of the head without arguments on the same data, P taken out of the main relations:
+      the head () of [P() :- B(2).] is not in P *)
+  Let exR2 : rel_interp N := fun r t => r = 0 /\ t = [5].
+  Example head_guard0_sound_instance :
+    ~ fset_of [0; 1; 2; 3] exR2 (head_fact 0 (fun _ => [5]) (fun _ => 0) ex_nP).
+  Proof.
+    apply (proj2 (proj2 (head_guard_sound N 0 [0; 1; 2; 3] exR2 exD1 (fun _ _ => False)
+                           (mkClause 1 [ex_nP]) 0%nat ex_nP eq_refl eq_refl))).
+    - constructor.
+    - constructor; [| constructor; [| constructor]].
+      + intros t [H _]. discriminate.
+      + intros t H. exact H.
+  Qed.
+
+  (** An instance of the hypotheses of [self_test_redundant]: the QUERY of [P() :- B(2).] when @new_P
+      already holds the empty tuple *)
+  Let exNw : rel_interp N := fun r t => r = 1 /\ t = [].
+  Example self_test_redundant_instance :
+    forall f : fact N,
+      (exNw (fst f) (snd f) \/
+       version_emits 0 (fun _ _ => 2) (fun _ _ => True) exR1 exD1 exNw 1 ex_nP f) <->
+      (exNw (fst f) (snd f) \/
+       version_emits 0 (fun _ _ => 2) (fun _ _ => True) exR1 exD1 (fun _ _ => False) 1 ex_nP f).
+  Proof.
+    apply (self_test_redundant N 0 [0; 1; 2; 3] (fun _ _ => 2) (fun _ _ => True) exR1 exD1 exNw
+             (mkClause 1 [ex_nP]) 0%nat ex_nP).
+    - vm_compute. reflexivity.
+    - reflexivity.
+    - intros t [_ H]. exact H.
+    - left. exists []. split; reflexivity.
+  Qed.
+
+  (** An instance of the hypotheses of [emitted_stratum_sound] for [ex_np]: all four relations empty
+      after the non-recursive rules; the scans of B find nothing and the loop leaves at the first
+      emptiness test. *)
+  Let ex_st1 : state N := mkState (fun _ _ => False) (fun _ _ => False) (fun _ _ => False).
+
+  Example emitted_stratum_sound_instance_nullary :
+    exists res' : fset (fact N),
+      loop_run (st_clauses ex_np) clause_arity
+               (fire_clause 0 [0; 1; 2; 3] ex_ar1 (fun _ _ => 0) (fun _ _ => True) (stR ex_st1))
+               (limit_hit_of N ex_np) (fset_of [0; 1; 2; 3] (stR ex_st1)) (fset_of [0; 1; 2; 3] (stR ex_st1)) res' /\
+      forall f, res' f <-> fset_of [0; 1; 2; 3] (stR ex_st1) f.
+  Proof.
+    apply (emitted_stratum_sound N 0 ex_ar1 (fun _ _ => 0) (fun _ _ => True) (stR ex_st1) ex_np).
+    - vm_compute. reflexivity.
+    - intros c Hc v Hv. simpl in Hc.
+      destruct Hc as [<- | [<- | []]]; simpl in Hv;
+        repeat (destruct Hv as [<- | Hv]; [split; [| reflexivity]; intros n Hn; simpl in Hn;
+                  repeat (destruct Hn as [<- | Hn]; [reflexivity|]); destruct Hn |]); destruct Hv.
+    - intros r [<- | [<- | []]]; reflexivity.
+    - intros r t [].
+    - intros r t _. tauto.
+    - intros r t _ [].
+    - intros r t _ [].
+    - refine (rl_exit_empty N ex_np _ (run_preamble [1; 2] (st_preamble ex_np) ex_st1) _).
+      intros r _ t [[] | (c & i & v & Hc & Hi & asg & Hsc & _)].
+      assert (Hp : forall tid k, ~ scan_sat (stR (run_preamble [1; 2] [0; 1; 2; 3] ex_st1))
+                                     (stD (run_preamble [1; 2] [0; 1; 2; 3] ex_st1))
+                                     (fun _ _ => False) asg (mkScan tid 0 k)).
+      { intros tid k H. destruct k; simpl in H.
+        - exact H.
+        - destruct H as [[] | [_ H]]. unfold copied in H. simpl in H. exact H.
+        - exact H. }
+      simpl in Hc. destruct Hc as [<- | [<- | []]]; simpl in Hi;
+        repeat (destruct i as [|i]; simpl in Hi;
+                [inversion Hi; subst v; inversion Hsc as [|? ? H0 _]; exact (Hp _ _ H0)|]);
+        destruct i; discriminate.
   Qed.
 End Examples.
 
@@ -1786,7 +2574,15 @@ End Examples.
    - The correspondence between the RAM text and the skeleton (harness/ramparse.py), including: the
      order merge, swap, clear of the table-update statements; that the uncounted filters of the
      versions of a clause are the same conditions ([others_sat]); that [=] in an equality filter is
-     identity of values (FEQ on floats is not).
-   - [emitted_stratum_sound] has only a run that leaves at the first emptiness test as its Example;
+     identity of values (FEQ on floats is not); which [IF (NOT ISEMPTY(rel))] stands for an atom
+     without a scan (all except the one directly under the scan of [rel]).
+   - The [BREAK]s of the versions with a head of arity 0 are not modelled (they end a scan once
+     @new_H is not empty; the checker only demands that they test @new of the head);
+     [self_test_redundant] covers the test [IF ISEMPTY(@new_H)] in front of the insertion.
+   - [emitted_stratum_sound] has only runs that leave at the first emptiness test as its Examples;
      a run with several rounds needs decision procedures for the concrete relations.
-   - Nullary relations, eqrel relations, subsumptive clauses, lattice relations: rejected, no model. *)
+   - An atom with only unnamed arguments over a relation of arity > 0 is covered as long as no
+     negated delta is needed for it (it is the first SCC atom of its clause, in particular the only
+     one, as in the clauses of the +disconnected relations); its negated delta
+     [NOT (_,..,_) IN @delta_r] is not: the translator does not produce a skeleton for it.
+   - Eqrel relations, subsumptive clauses, lattice relations: rejected, no model. *)
